@@ -1,4 +1,10 @@
 import GeoVerif.Model.GridCodes
+import GeoVerif.Proofs.F64Round
+import GeoVerif.Proofs.Digits
+import GeoVerif.Proofs.GeohashBits
+import GeoVerif.Proofs.GeohashScale
+import GeoVerif.Proofs.GeorefLoop
+import GeoVerif.Props.C16
 /-!
 # C18 — property theorems (grid codes), integer level
 
@@ -6,7 +12,7 @@ The tables are the ones re-extracted from the sources (`Gen.Grid`), so each
 `decide` below is re-checked against what the code says now.
 -/
 namespace GeoVerif.Props.C18
-open GeoVerif GeoVerif.Grid
+open GeoVerif GeoVerif.Grid Gen.Grid
 
 /-! ### every table letter is found again at its own index (decode inverts encode letter-wise) -/
 theorem gars_digits_lookup : ∀ k < 10, lookup GARS.digits (chr GARS.digits k).toNat = some k := by decide
@@ -108,6 +114,1224 @@ theorem chunks5_length (l : List Bool) : (Geohash.chunks5 l).length = l.length /
   | [_, _] => simp [Geohash.chunks5]
   | [_, _, _] => simp [Geohash.chunks5]
   | [_, _, _, _] => simp [Geohash.chunks5]
+
+/-! ### `scale_contains` (GARS, Georef): the one rounding in front of the integer codec
+
+The floating part of `GARS::Forward` / `Georef::Forward` is: normalise the longitude, move the pole inside, then
+per coordinate **one rounded multiplication by the integer `m` and a `floor`**.  Using the rounding theory of
+`Proofs/Round53.lean` (monotonicity of `round53`, integers up to 2^53 are fixed points, error bound) the coded cell
+index is related to the exact one for *all* inputs.  Constants (`m`, origins) come from `Gen.Grid`. -/
+
+/-- longitude argument of the scale multiplication, as prepared by `GARS::Forward`/`Georef::Forward` -/
+def prepLon (lon : F64) : F64 :=
+  let lon := MathF.angNormalize lon
+  if F64.eq lon MathF.hd then F64.neg MathF.hd else lon
+/-- latitude argument: `lat·(1 − ε/2)` at the pole -/
+def prepLat (lat : F64) : F64 :=
+  if F64.eq lat MathF.qd then lat * (.fin false (2 ^ 53 - 1) (-53)) else lat
+
+theorem gars_scaleWith_eq (mulf : F64 → F64 → Int) (lat lon : F64) :
+    GARS.scaleWith mulf lat lon =
+      if F64.gt (F64.abs lat) MathF.qd then .error "lat" else
+      if lat.isNaN || lon.isNaN then .ok none else
+      .ok (some (mulf (prepLon lon) (F64.ofInt GARS.m) - gars_lonorig * GARS.m,
+                 mulf (prepLat lat) (F64.ofInt GARS.m) - gars_latorig * GARS.m)) := rfl
+
+theorem gars_scale_eq : GARS.scale = GARS.scaleWith F64.mulFloorCoded := rfl
+theorem gars_scaleExact_eq : GARS.scaleExact = GARS.scaleWith F64.mulFloorExact := rfl
+
+/-- `prepLon` is NaN (infinite input) or a finite number in `[−180, 180)` congruent to `lon` mod 360 -/
+theorem prepLon_spec (lon : F64) :
+    (lon.isFinite = false ∧ prepLon lon = .nan) ∨
+    (lon.isFinite = true ∧ ∃ s m e, prepLon lon = .fin s m e ∧ -180 ≤ (prepLon lon).val ∧ (prepLon lon).val < 180 ∧
+      ∃ n : ℤ, (prepLon lon).val = lon.val - 360 * n) := by
+  cases lon with
+  | nan => left; exact ⟨rfl, rfl⟩
+  | inf s => left; exact ⟨rfl, rfl⟩
+  | fin sx mx ex =>
+    right
+    refine ⟨rfl, ?_⟩
+    obtain ⟨hfin, ⟨n, hn⟩, hb, _⟩ := C16.angNormalize_spec sx mx ex
+    unfold prepLon
+    simp only []
+    set y := MathF.angNormalize (F64.fin sx mx ex) with hy
+    obtain ⟨sy, my, ey, hyf⟩ := F64.exists_fin_of_isFinite y hfin
+    have h180 : (MathF.hd).val = 180 := by rw [C16.hd_eq, F64.val_fin]; simp
+    have hbb := abs_le.mp hb
+    by_cases hE : F64.eq y MathF.hd = true
+    · rw [if_pos hE]
+      have hyv : y.val = 180 := by rw [(F64.eq_fin_iff _ _ hfin rfl).mp hE, h180]
+      have hv : (F64.neg MathF.hd).val = -180 := by
+        show (F64.fin true 180 0).val = -180
+        rw [F64.val_fin]; simp
+      refine ⟨true, 180, 0, rfl, by rw [hv], by rw [hv]; norm_num, n + 1, ?_⟩
+      rw [hv]; push_cast; linarith
+    · rw [if_neg hE]
+      have hne : y.val ≠ 180 := by
+        intro hc; apply hE
+        exact (F64.eq_fin_iff _ _ hfin rfl).mpr (by rw [hc, h180])
+      refine ⟨sy, my, ey, hyf, hbb.1, lt_of_le_of_ne hbb.2 hne, n, hn⟩
+
+/-- an accepted, non-NaN latitude is finite with `|lat| ≤ 90` -/
+theorem lat_accepted (lat : F64) (h1 : F64.gt (F64.abs lat) MathF.qd = false) (h2 : lat.isNaN = false) :
+    ∃ s m e, lat = .fin s m e ∧ |lat.val| ≤ 90 := by
+  cases lat with
+  | nan => simp [F64.isNaN] at h2
+  | inf s => cases s <;> exact absurd h1 (by decide)
+  | fin s m e =>
+    refine ⟨s, m, e, rfl, ?_⟩
+    have h3 : Dy.lt MathF.qd.toDy (F64.abs (F64.fin s m e)).toDy = false := h1
+    have h4 : ¬ (MathF.qd.toDy.val < (F64.abs (F64.fin s m e)).toDy.val) := by
+      rw [← Dy.lt_iff, h3]; simp
+    have h5 : MathF.qd.toDy.val = 90 := by
+      show MathF.qd.val = 90
+      rw [C16.qd_eq, F64.val_fin]; simp
+    have h6 : (F64.abs (F64.fin s m e)).toDy.val = |(F64.fin s m e).val| := F64.val_abs_fin s m e
+    rw [h5, h6] at h4
+    exact not_lt.mp h4
+
+theorem pole_round :
+    (Dy.round53 ⟨90 * (2 ^ 53 - 1), -53⟩).m = 90 * 2 ^ 46 - 1 ∧ (Dy.round53 ⟨90 * (2 ^ 53 - 1), -53⟩).e = -46 := by
+  decide +kernel
+
+/-- `prepLat` of an accepted latitude is finite and in `[−90, 90)` (the pole is moved inside by one ulp) -/
+theorem prepLat_spec (lat : F64) (h1 : F64.gt (F64.abs lat) MathF.qd = false) (h2 : lat.isNaN = false) :
+    ∃ s m e, prepLat lat = .fin s m e ∧ -90 ≤ (prepLat lat).val ∧ (prepLat lat).val < 90 ∧
+      (lat.val ≠ 90 → prepLat lat = lat) := by
+  obtain ⟨s, m, e, hl, hb⟩ := lat_accepted lat h1 h2
+  subst hl
+  have hl : F64.fin s m e = F64.fin s m e := rfl
+  generalize hlat : F64.fin s m e = lat at *
+  have hbb := abs_le.mp hb
+  have h90 : (MathF.qd).val = 90 := by rw [C16.qd_eq, F64.val_fin]; simp
+  have hfin : lat.isFinite = true := by rw [← hlat]; rfl
+  unfold prepLat
+  by_cases hE : F64.eq lat MathF.qd = true
+  · rw [if_pos hE]
+    have hv : lat.val = 90 := by rw [(F64.eq_fin_iff _ _ hfin rfl).mp hE, h90]
+    set c : F64 := .fin false (2 ^ 53 - 1) (-53) with hc
+    set P := Dy.mul lat.toDy c.toDy with hP
+    have hmul : lat * c = F64.rnd P (s != false) := by rw [hP, ← hlat]; rfl
+    have hPv : P.val = (⟨90 * (2 ^ 53 - 1), -53⟩ : Dy).val := by
+      rw [hP, Dy.val_mul]
+      show lat.val * c.val = _
+      rw [hv, hc, F64.val_fin]; simp [Dy.val]; ring
+    have hr : (Dy.round53 P).val = (90 * 2 ^ 46 - 1 : ℚ) * (2:ℚ) ^ (-46 : ℤ) := by
+      have := Dy.roundTo_val_congr 53 (by norm_num) (-1074) P _ hPv
+      show (Dy.roundTo 53 (-1074) P).val = _
+      rw [this]
+      show (Dy.round53 ⟨90 * (2 ^ 53 - 1), -53⟩).val = _
+      unfold Dy.val
+      rw [pole_round.1, pole_round.2]; push_cast; ring
+    have hrv : (Dy.round53 P).val = 90 - (2:ℚ) ^ (-46 : ℤ) := by
+      rw [hr]
+      have : (2:ℚ) ^ (46:ℕ) * (2:ℚ) ^ (-46:ℤ) = 1 := by
+        rw [← zpow_natCast, ← Dy.two_zpow_split]; norm_num
+      linear_combination 90 * this
+    have hpos := Dy.two_zpow_pos (-46)
+    have hsmall : (2:ℚ) ^ (-46 : ℤ) ≤ 1 := by
+      have := Dy.two_zpow_le (show (-46:ℤ) ≤ 0 by norm_num); simpa using this
+    have hB : |(Dy.round53 P).val| < (2:ℚ) ^ (1024:ℤ) := by
+      have : (2:ℚ) ^ (7:ℤ) ≤ (2:ℚ) ^ (1024:ℤ) := Dy.two_zpow_le (by norm_num)
+      have e7 : (2:ℚ) ^ (7:ℤ) = 128 := by norm_num
+      rw [hrv, abs_lt]
+      generalize (2:ℚ) ^ (1024:ℤ) = B at *
+      generalize (2:ℚ) ^ (-46:ℤ) = A at *
+      generalize (2:ℚ) ^ (7:ℤ) = C at *
+      constructor <;> linarith
+    obtain ⟨hf, hval⟩ := F64.rnd_fin P (s != false) hB
+    rw [hmul]
+    obtain ⟨s', m', e', hfe⟩ := F64.exists_fin_of_isFinite _ hf
+    refine ⟨s', m', e', hfe, ?_, ?_, fun hne => absurd hv hne⟩
+    · rw [hval, hrv]; linarith
+    · rw [hval, hrv]; linarith
+  · rw [if_neg hE]
+    have hne : lat.val ≠ 90 := by
+      intro hc; apply hE
+      exact (F64.eq_fin_iff _ _ hfin rfl).mpr (by rw [hc, h90])
+    exact ⟨s, m, e, hlat.symm, hbb.1, lt_of_le_of_ne hbb.2 hne, fun _ => rfl⟩
+
+/-- relation between the exact cell index `n = ⌊a·b⌋` and the coded one `c = ⌊rnd(a·b)⌋`: `n` is the cell of the
+exact product, and `c` is `n`, or `n + 1` when the rounded product is exactly the integer `n + 1` (then the exact
+product is within the rounding error `max(|a·b|·2⁻⁵³, 2⁻¹⁰⁷⁵)` below that integer) — finding F2. -/
+def CellRel (a b : F64) (n c : ℤ) : Prop :=
+  ((n:ℚ) ≤ a.val * b.val ∧ a.val * b.val < (n:ℚ) + 1) ∧
+  (c = n ∨ (c = n + 1 ∧ (a * b).val = (n:ℚ) + 1 ∧
+    (n:ℚ) + 1 - a.val * b.val ≤ max (|a.val * b.val| * (2:ℚ) ^ (-(53:ℤ))) ((2:ℚ) ^ (-(1075:ℤ)))))
+
+theorem cellRel_of_bound (a : F64) (s : Bool) (m : ℕ) (e : ℤ) (ha : a = .fin s m e) (k : ℕ) (hk : |a.val * k| ≤ 2 ^ 52) :
+    CellRel a (.fin false k 0) (F64.mulFloorExact a (.fin false k 0)) (F64.mulFloorCoded a (.fin false k 0)) := by
+  subst ha
+  have hb : (F64.fin false k 0).val = k := by rw [F64.val_fin]; simp
+  have := F64.mulFloor_contains s false m k e 0 (by rw [hb]; exact hk)
+  exact this
+
+
+/-- generic form of the two scale steps (both coordinates), `k = m` the cells per degree -/
+theorem scale_contains_gen (k : ℕ) (hk1 : 1 ≤ k) (hk : (180:ℚ) * k ≤ 2 ^ 52) (lat lon : F64)
+    (h1 : F64.gt (F64.abs lat) MathF.qd = false) (h2 : (lat.isNaN || lon.isNaN) = false) :
+    let b : F64 := .fin false k 0
+    (lon.isFinite = true →
+      CellRel (prepLon lon) b (F64.mulFloorExact (prepLon lon) b) (F64.mulFloorCoded (prepLon lon) b) ∧
+      -180 * (k:ℤ) ≤ F64.mulFloorExact (prepLon lon) b ∧ F64.mulFloorExact (prepLon lon) b < 180 * (k:ℤ)) ∧
+    (lon.isFinite = false → F64.mulFloorCoded (prepLon lon) b = F64.mulFloorExact (prepLon lon) b) ∧
+    CellRel (prepLat lat) b (F64.mulFloorExact (prepLat lat) b) (F64.mulFloorCoded (prepLat lat) b) ∧
+    -90 * (k:ℤ) ≤ F64.mulFloorExact (prepLat lat) b ∧ F64.mulFloorExact (prepLat lat) b < 90 * (k:ℤ) := by
+  intro b
+  have hnan : lat.isNaN = false := by
+    cases h : lat.isNaN <;> simp_all
+  have hb : b.val = k := by rw [F64.val_fin]; simp
+  have hk0 : (0:ℚ) < k := by exact_mod_cast hk1
+  refine ⟨?_, ?_, ?_⟩
+  · intro hf
+    rcases prepLon_spec lon with ⟨hf', _⟩ | ⟨_, s, m, e, hp, hlo, hhi, _⟩
+    · rw [hf] at hf'; exact absurd hf' (by decide)
+    · have hB : |(prepLon lon).val * (k:ℚ)| ≤ 2 ^ 52 := by
+        rw [abs_le]; constructor <;> nlinarith
+      have hc := cellRel_of_bound (prepLon lon) s m e hp k hB
+      refine ⟨hc, ?_, ?_⟩
+      · obtain ⟨⟨c1, c2⟩, _⟩ := hc
+        rw [hb] at c1 c2
+        have : ((-180 * (k:ℤ) - 1 : ℤ) : ℚ) < ((F64.mulFloorExact (prepLon lon) b : ℤ) : ℚ) := by
+          push_cast; nlinarith
+        have : -180 * (k:ℤ) - 1 < F64.mulFloorExact (prepLon lon) b := by exact_mod_cast this
+        omega
+      · obtain ⟨⟨c1, c2⟩, _⟩ := hc
+        rw [hb] at c1 c2
+        have : ((F64.mulFloorExact (prepLon lon) b : ℤ) : ℚ) < ((180 * (k:ℤ) : ℤ) : ℚ) := by
+          have := mul_lt_mul_of_pos_right hhi hk0
+          push_cast; linarith
+        exact_mod_cast this
+  · intro hf
+    rcases prepLon_spec lon with ⟨_, hp⟩ | ⟨hf', _⟩
+    · rw [hp]
+      have l : F64.mulFloorCoded .nan b = 0 := rfl
+      have r : F64.mulFloorExact .nan b = 0 := by
+        simp [F64.mulFloorExact, F64.toDy, Dy.mul, Dy.floor, Dy.shl]
+      rw [l, r]
+    · rw [hf] at hf'; exact absurd hf' (by decide)
+  · obtain ⟨s, m, e, hp, hlo, hhi, _⟩ := prepLat_spec lat h1 hnan
+    have hB : |(prepLat lat).val * (k:ℚ)| ≤ 2 ^ 52 := by
+      rw [abs_le]; constructor <;> nlinarith
+    have hc := cellRel_of_bound (prepLat lat) s m e hp k hB
+    refine ⟨hc, ?_, ?_⟩
+    · obtain ⟨⟨c1, c2⟩, _⟩ := hc
+      rw [hb] at c1 c2
+      have : ((-90 * (k:ℤ) - 1 : ℤ) : ℚ) < ((F64.mulFloorExact (prepLat lat) b : ℤ) : ℚ) := by
+        push_cast; nlinarith
+      have : -90 * (k:ℤ) - 1 < F64.mulFloorExact (prepLat lat) b := by exact_mod_cast this
+      omega
+    · obtain ⟨⟨c1, c2⟩, _⟩ := hc
+      rw [hb] at c1 c2
+      have : ((F64.mulFloorExact (prepLat lat) b : ℤ) : ℚ) < ((90 * (k:ℤ) : ℤ) : ℚ) := by
+        have := mul_lt_mul_of_pos_right hhi hk0
+        push_cast; linarith
+      exact_mod_cast this
+
+/-- **`scale_contains`, GARS** (every accepted, non-NaN input).  `scaleExact` and `scale` both succeed; in each
+coordinate the exact cell index is the cell of the prepared point `(prepLon lon, prepLat lat)` — `X ≤ (lon+180)·m < X+1`
+in the form `CellRel.1` — it lies in the valid range, and the coded index is the exact one or its upper neighbour in
+the precise circumstance of `CellRel` (finding F2).  For an infinite longitude both give the same column. -/
+theorem gars_scale_contains (lat lon : F64) (h1 : F64.gt (F64.abs lat) MathF.qd = false)
+    (h2 : (lat.isNaN || lon.isNaN) = false) :
+    ∃ X Y X' Y' : ℤ, GARS.scaleExact lat lon = .ok (some (X, Y)) ∧ GARS.scale lat lon = .ok (some (X', Y')) ∧
+      (lon.isFinite = true →
+        CellRel (prepLon lon) (F64.ofInt GARS.m) (X + gars_lonorig * GARS.m) (X' + gars_lonorig * GARS.m) ∧
+        0 ≤ X ∧ X < 360 * GARS.m) ∧
+      (lon.isFinite = false → X' = X) ∧
+      CellRel (prepLat lat) (F64.ofInt GARS.m) (Y + gars_latorig * GARS.m) (Y' + gars_latorig * GARS.m) ∧
+      0 ≤ Y ∧ Y < 180 * GARS.m := by
+  have hm : F64.ofInt GARS.m = .fin false 12 0 := rfl
+  obtain ⟨g1, g2, g3, g4, g5⟩ := scale_contains_gen 12 (by norm_num) (by norm_num) lat lon h1 h2
+  refine ⟨F64.mulFloorExact (prepLon lon) (F64.ofInt GARS.m) - gars_lonorig * GARS.m,
+          F64.mulFloorExact (prepLat lat) (F64.ofInt GARS.m) - gars_latorig * GARS.m,
+          F64.mulFloorCoded (prepLon lon) (F64.ofInt GARS.m) - gars_lonorig * GARS.m,
+          F64.mulFloorCoded (prepLat lat) (F64.ofInt GARS.m) - gars_latorig * GARS.m, ?_, ?_, ?_, ?_, ?_⟩
+  · rw [gars_scaleExact_eq, gars_scaleWith_eq, h1, h2]; rfl
+  · rw [gars_scale_eq, gars_scaleWith_eq, h1, h2]; rfl
+  · intro hf
+    obtain ⟨a1, a2, a3⟩ := g1 hf
+    rw [Int.sub_add_cancel, Int.sub_add_cancel, hm]
+    refine ⟨a1, ?_, ?_⟩
+    · show 0 ≤ F64.mulFloorExact (prepLon lon) (F64.fin false 12 0) - (-180) * 12
+      push_cast at a2; omega
+    · show F64.mulFloorExact (prepLon lon) (F64.fin false 12 0) - (-180) * 12 < 360 * 12
+      push_cast at a3; omega
+  · intro hf; rw [hm, g2 hf]
+  · rw [Int.sub_add_cancel, Int.sub_add_cancel, hm]
+    refine ⟨g3, ?_, ?_⟩
+    · show 0 ≤ F64.mulFloorExact (prepLat lat) (F64.fin false 12 0) - (-90) * 12
+      push_cast at g4; omega
+    · show F64.mulFloorExact (prepLat lat) (F64.fin false 12 0) - (-90) * 12 < 180 * 12
+      push_cast at g5; omega
+
+/-- `scale` and `scaleExact` reject / return "INVALID" on exactly the same inputs (GARS) -/
+theorem gars_scale_shape (lat lon : F64) :
+    (∀ e, GARS.scale lat lon = .error e ↔ GARS.scaleExact lat lon = .error e) ∧
+    (GARS.scale lat lon = .ok none ↔ GARS.scaleExact lat lon = .ok none) := by
+  rw [gars_scale_eq, gars_scaleExact_eq, gars_scaleWith_eq, gars_scaleWith_eq]
+  by_cases h1 : F64.gt (F64.abs lat) MathF.qd = true
+  · simp [h1]
+  · by_cases h2 : (lat.isNaN || lon.isNaN) = true
+    · simp only [h1, h2, if_true, Bool.false_eq_true, if_false]; simp
+    · simp only [h1, h2, Bool.false_eq_true, if_false]
+      constructor
+      · intro e; constructor <;> intro h <;> cases h
+      · constructor <;> intro h <;> cases h
+
+/-- **`scale = scaleExact` whenever both products are representable** (GARS) -/
+theorem gars_scale_exact_of_representable (lat lon : F64) (h1 : F64.gt (F64.abs lat) MathF.qd = false)
+    (h2 : (lat.isNaN || lon.isNaN) = false) (hf : lon.isFinite = true)
+    (hx : (Dy.round53 (Dy.mul (prepLon lon).toDy (F64.ofInt GARS.m).toDy)).val = (prepLon lon).val * (F64.ofInt GARS.m).val)
+    (hy : (Dy.round53 (Dy.mul (prepLat lat).toDy (F64.ofInt GARS.m).toDy)).val = (prepLat lat).val * (F64.ofInt GARS.m).val) :
+    GARS.scale lat lon = GARS.scaleExact lat lon := by
+  have hm : F64.ofInt GARS.m = .fin false 12 0 := rfl
+  have hb : (F64.fin false 12 0).val = 12 := by rw [F64.val_fin]; simp
+  have hnan : lat.isNaN = false := by
+    cases h : lat.isNaN <;> simp_all
+  rw [gars_scale_eq, gars_scaleExact_eq, gars_scaleWith_eq, gars_scaleWith_eq, h1, h2]
+  simp only [Bool.false_eq_true, if_false]
+  rw [hm] at hx hy ⊢
+  have e52 : (2:ℚ) ^ 52 = 4503599627370496 := by norm_num
+  have ex : F64.mulFloorCoded (prepLon lon) (.fin false 12 0) = F64.mulFloorExact (prepLon lon) (.fin false 12 0) := by
+    rcases prepLon_spec lon with ⟨hf', _⟩ | ⟨_, s, m, e, hp, hlo, hhi, _⟩
+    · rw [hf] at hf'; exact absurd hf' (by decide)
+    · rw [hp] at hx ⊢
+      rw [hp] at hlo hhi
+      exact F64.mulFloor_exact_of_representable s false m 12 e 0
+        (by rw [hb, e52, abs_le]; constructor <;> linarith) hx
+  have ey : F64.mulFloorCoded (prepLat lat) (.fin false 12 0) = F64.mulFloorExact (prepLat lat) (.fin false 12 0) := by
+    obtain ⟨s, m, e, hp, hlo, hhi, _⟩ := prepLat_spec lat h1 hnan
+    rw [hp] at hy ⊢
+    rw [hp] at hlo hhi
+    exact F64.mulFloor_exact_of_representable s false m 12 e 0
+      (by rw [hb, e52, abs_le]; constructor <;> linarith) hy
+  rw [ex, ey]
+
+/-- **`scale_contains`, Georef** — the same statement; `m = 6·10¹⁰` -/
+theorem georef_scale_contains (lat lon : F64) (h1 : F64.gt (F64.abs lat) MathF.qd = false)
+    (h2 : (lat.isNaN || lon.isNaN) = false) :
+    ∃ X Y X' Y' : ℤ, Georef.scaleExact lat lon = .ok (some (X, Y)) ∧ Georef.scale lat lon = .ok (some (X', Y')) ∧
+      (lon.isFinite = true →
+        CellRel (prepLon lon) (F64.ofInt Georef.m) (X + georef_lonorig * Georef.m) (X' + georef_lonorig * Georef.m) ∧
+        0 ≤ X ∧ X < 360 * Georef.m) ∧
+      (lon.isFinite = false → X' = X) ∧
+      CellRel (prepLat lat) (F64.ofInt Georef.m) (Y + georef_latorig * Georef.m) (Y' + georef_latorig * Georef.m) ∧
+      0 ≤ Y ∧ Y < 180 * Georef.m := by
+  have hm : F64.ofInt Georef.m = .fin false 60000000000 0 := rfl
+  obtain ⟨g1, g2, g3, g4, g5⟩ := scale_contains_gen 60000000000 (by norm_num) (by norm_num) lat lon h1 h2
+  have hs : ∀ mulf, Georef.scaleWith mulf lat lon =
+      .ok (some (mulf (prepLon lon) (F64.ofInt Georef.m) - georef_lonorig * Georef.m,
+                 mulf (prepLat lat) (F64.ofInt Georef.m) - georef_latorig * Georef.m)) := by
+    intro mulf
+    have : Georef.scaleWith mulf lat lon =
+      if F64.gt (F64.abs lat) MathF.qd then .error "lat" else
+      if lat.isNaN || lon.isNaN then .ok none else
+      .ok (some (mulf (prepLon lon) (F64.ofInt Georef.m) - georef_lonorig * Georef.m,
+                 mulf (prepLat lat) (F64.ofInt Georef.m) - georef_latorig * Georef.m)) := rfl
+    rw [this, h1, h2]; rfl
+  refine ⟨F64.mulFloorExact (prepLon lon) (F64.ofInt Georef.m) - georef_lonorig * Georef.m,
+          F64.mulFloorExact (prepLat lat) (F64.ofInt Georef.m) - georef_latorig * Georef.m,
+          F64.mulFloorCoded (prepLon lon) (F64.ofInt Georef.m) - georef_lonorig * Georef.m,
+          F64.mulFloorCoded (prepLat lat) (F64.ofInt Georef.m) - georef_latorig * Georef.m,
+          hs F64.mulFloorExact, hs F64.mulFloorCoded, ?_, ?_, ?_⟩
+  · intro hf
+    obtain ⟨a1, a2, a3⟩ := g1 hf
+    rw [Int.sub_add_cancel, Int.sub_add_cancel, hm]
+    refine ⟨a1, ?_, ?_⟩
+    · show 0 ≤ F64.mulFloorExact (prepLon lon) (F64.fin false 60000000000 0) - (-180) * 60000000000
+      push_cast at a2; omega
+    · show F64.mulFloorExact (prepLon lon) (F64.fin false 60000000000 0) - (-180) * 60000000000 < 360 * 60000000000
+      push_cast at a3; omega
+  · intro hf; rw [hm, g2 hf]
+  · rw [Int.sub_add_cancel, Int.sub_add_cancel, hm]
+    refine ⟨g3, ?_, ?_⟩
+    · show 0 ≤ F64.mulFloorExact (prepLat lat) (F64.fin false 60000000000 0) - (-90) * 60000000000
+      push_cast at g4; omega
+    · show F64.mulFloorExact (prepLat lat) (F64.fin false 60000000000 0) - (-90) * 60000000000 < 180 * 60000000000
+      push_cast at g5; omega
+
+/-! non-vacuity: the F2 witness `GARS::Forward(-89.916666666666671, 0.5)` — accepted, exact row 0, coded row 1 -/
+example : F64.gt (F64.abs (.fin true 6327322913974955 (-46))) MathF.qd = false := by decide +kernel
+example : (match GARS.scaleExact (.fin true 6327322913974955 (-46)) (.fin false 1 (-1)),
+                 GARS.scale (.fin true 6327322913974955 (-46)) (.fin false 1 (-1)) with
+    | .ok (some (X, Y)), .ok (some (X', Y')) => decide (X = 2166 ∧ Y = 0 ∧ X' = 2166 ∧ Y' = 1)
+    | _, _ => false) = true := by decide +kernel
+/-- a representable product: `lat = 45.5`, `lon = 0.25` -/
+example : (Dy.round53 (Dy.mul (prepLat (.fin false 91 (-1))).toDy (F64.ofInt GARS.m).toDy)).m = 1092 := by decide +kernel
+
+/-! ### `scale_contains` (Geohash): one rounded *division*, `floor`, and an exact addition
+
+`Dy.divTo` is proved to be the correctly rounded quotient (`Proofs/DivTo.lean`), so the same statement holds. -/
+section GeohashScale
+open F64
+
+/-- one Geohash coordinate: `x` finite with `|x| ≤ k` degrees (`k = 180` or `90`), `eps = k / 2^45` (exact).
+The exact cell `⌊x·2^45/k⌋` and the coded one `⌊rnd(x / eps)⌋` are related by `CellRelQ`, and the coded
+`floor(x/eps) + 2^45` (a binary64 addition) is exact. -/
+theorem geohash_coord (s : Bool) (m : ℕ) (e : ℤ) (k : ℕ) (hk0 : k ≠ 0) (hk : (k:ℤ) ≤ 2 ^ 53)
+    (hx : |(F64.fin s m e).val| ≤ k) :
+    let x := F64.fin s m e
+    let eps := (F64.fin false k 0) / shift45
+    CellRelQ (x.val * (2:ℚ) ^ (45:ℕ) / k) (x / eps).val (flExact x.toDy k) (divFloorCoded x eps) ∧
+    Dy.floor (F64.floor (x / eps) + shift45).toDy = divFloorCoded x eps + 2 ^ 45 ∧
+    -(2:ℤ) ^ 45 ≤ flExact x.toDy k ∧ flExact x.toDy k ≤ 2 ^ 45 ∧ (x.val < k → flExact x.toDy k < 2 ^ 45) := by
+  intro x eps
+  obtain ⟨se, me, ee, heps, hme, hev⟩ := eps_spec k hk0 hk
+  have hkq : (0:ℚ) < k := by exact_mod_cast Nat.pos_of_ne_zero hk0
+  have hq : x.val / eps.val = x.val * (2:ℚ) ^ (45:ℕ) / k := by
+    show x.val / ((F64.fin false k 0) / shift45).val = _
+    rw [hev]; field_simp
+  obtain ⟨n1, n2⟩ := flExact_spec x.toDy k (by exact_mod_cast Nat.pos_of_ne_zero hk0)
+  have hxv : x.toDy.val = x.val := rfl
+  rw [hxv] at n1 n2
+  push_cast at n1 n2
+  set n := flExact x.toDy k with hn
+  have hxb := abs_le.mp hx
+  have e45 : (0:ℚ) < (2:ℚ) ^ (45:ℕ) := by positivity
+  have zlo : -(2:ℚ) ^ (45:ℕ) ≤ x.val * (2:ℚ) ^ (45:ℕ) / k := by
+    rw [le_div_iff₀ hkq]; nlinarith
+  have zhi : x.val * (2:ℚ) ^ (45:ℕ) / k ≤ (2:ℚ) ^ (45:ℕ) := by
+    rw [div_le_iff₀ hkq]; nlinarith
+  have e52 : (2:ℚ) ^ 52 = 128 * (2:ℚ) ^ (45:ℕ) := by norm_num
+  have hz52 : |x.val / eps.val| ≤ 2 ^ 52 := by
+    rw [hq, e52, abs_le]; constructor <;> linarith
+  have hdc := divFloor_contains s se m me e ee hme n
+  rw [← heps] at hdc
+  simp only [] at hdc
+  obtain ⟨hfin, hcr⟩ := hdc hz52 (by rw [hq]; exact n1) (by rw [hq]; exact n2)
+  rw [hq] at hcr
+  have nlo : -(2:ℤ) ^ 45 ≤ n := by
+    have : ((-(2:ℤ) ^ 45 - 1 : ℤ) : ℚ) < (n:ℚ) := by push_cast; linarith
+    have : -(2:ℤ) ^ 45 - 1 < n := by exact_mod_cast this
+    omega
+  have nhi : n ≤ (2:ℤ) ^ 45 := by
+    have : (n:ℚ) ≤ ((2 ^ 45 : ℤ) : ℚ) := by push_cast; linarith
+    exact_mod_cast this
+  refine ⟨⟨⟨n1, n2⟩, hcr⟩, ?_, nlo, nhi, ?_⟩
+  · -- exact addition of the shift
+    obtain ⟨sq, mq, eq, hrep⟩ := exists_fin_of_isFinite _ hfin
+    have hc : divFloorCoded x eps = Dy.floor (x / eps).toDy := by unfold divFloorCoded; rw [floor_toDy_floor]
+    obtain ⟨f1, f2⟩ := Dy.floor_spec (x / eps).toDy
+    have hcb : divFloorCoded x eps = n ∨ divFloorCoded x eps = n + 1 := by
+      rcases hcr with h | ⟨h, _⟩
+      · exact Or.inl h
+      · exact Or.inr h
+    rw [← hc] at f1 f2
+    have hqv : (x / eps).toDy.val = (x / eps).val := rfl
+    rw [hqv] at f1 f2
+    have hb52 : |(x / eps).val| ≤ 2 ^ 52 := by
+      have nloq : (-(2:ℚ) ^ (45:ℕ)) ≤ (n:ℚ) := by exact_mod_cast nlo
+      have nhiq : (n:ℚ) ≤ (2:ℚ) ^ (45:ℕ) := by exact_mod_cast nhi
+      rw [e52, abs_le]
+      rcases hcb with h | h <;> rw [h] at f1 f2 <;> push_cast at f1 f2 <;> constructor <;> linarith
+    rw [hc, hrep]
+    rw [hrep] at hb52
+    exact floor_add_shift sq mq eq hb52
+  · intro hlt
+    have : x.val * (2:ℚ) ^ (45:ℕ) / k < (2:ℚ) ^ (45:ℕ) := by
+      rw [div_lt_iff₀ hkq]; nlinarith
+    have : (n:ℚ) < ((2 ^ 45 : ℤ) : ℚ) := by push_cast; linarith
+    exact_mod_cast this
+
+
+theorem two_eq : (2 : F64) = .fin false 2 0 := rfl
+
+/-- the pole: `lat = 90` is first moved to `90 − lateps/2` (exact), whose cell is the last one, `2^46 − 1` -/
+theorem geohash_pole (s : Bool) (m : ℕ) (e : ℤ) (hv : (F64.fin s m e).val = 90) :
+    let eps := (F64.fin false 90 0) / shift45
+    Dy.floor (F64.floor ((F64.fin s m e - eps / 2) / eps) + shift45).toDy = 2 ^ 46 - 1 := by
+  intro eps
+  obtain ⟨se, me, ee, heps, hme, hev⟩ := eps_spec 90 (by norm_num) (by norm_num)
+  have hev' : eps.val = 90 / (2:ℚ) ^ (45:ℕ) := by exact_mod_cast hev
+  have big : ∀ r : ℚ, |r| ≤ 2 ^ 52 → |r| < (2:ℚ) ^ (1024:ℤ) := by
+    intro r hr
+    have h53 : (2:ℚ) ^ (52:ℕ) < (2:ℚ) ^ (1024:ℤ) := by
+      rw [← zpow_natCast]; exact Dy.two_zpow_lt_iff.mpr (by norm_num)
+    exact lt_of_le_of_lt hr h53
+  -- h = eps / 2
+  obtain ⟨r1, hr1, hf1⟩ := div_fin se false me 2 ee 0 (by norm_num)
+  rw [← heps, ← two_eq] at hr1 hf1
+  have h2v : (2 : F64).val = 2 := by rw [two_eq, val_fin]; simp
+  rw [hev', h2v] at hr1
+  have hr1e := hr1.eq_of_fits 45 (-45) (by norm_num) (by norm_num) (by
+    rw [zpow_neg]; norm_num)
+  have hr1b : |r1| ≤ 2 ^ 52 := by rw [hr1e]; norm_num [abs_le]
+  obtain ⟨hfin1, hval1⟩ := hf1 (big r1 hr1b)
+  obtain ⟨sh, mh, eh, hrep1⟩ := exists_fin_of_isFinite _ hfin1
+  -- x' = lat − h
+  obtain ⟨r2, hr2, hf2⟩ := sub_fin_isRN s sh m mh e eh
+  rw [← hrep1] at hr2 hf2
+  rw [hv, hval1, hr1e] at hr2
+  have hr2e := hr2.eq_of_fits (45 * (2 ^ 46 - 1)) (-45) (by norm_num) (by norm_num) (by
+    rw [zpow_neg]; norm_num)
+  have hr2b : |r2| ≤ 2 ^ 52 := by rw [hr2e]; norm_num [abs_le]
+  obtain ⟨hfin2, hval2⟩ := hf2 (big r2 hr2b)
+  obtain ⟨sx, mx, ex, hrep2⟩ := exists_fin_of_isFinite _ hfin2
+  -- q = x' / eps
+  obtain ⟨r3, hr3, hf3⟩ := div_fin sx se mx me ex ee hme
+  rw [← hrep2, ← heps] at hr3 hf3
+  rw [hval2, hr2e, hev'] at hr3
+  have hr3e := hr3.eq_of_fits (2 ^ 46 - 1) (-1) (by norm_num) (by norm_num) (by
+    rw [zpow_neg]; norm_num)
+  have hr3b : |r3| ≤ 2 ^ 52 := by rw [hr3e]; norm_num [abs_le]
+  obtain ⟨hfin3, hval3⟩ := hf3 (big r3 hr3b)
+  obtain ⟨sq, mq, eq, hrep3⟩ := exists_fin_of_isFinite _ hfin3
+  rw [hrep3]
+  rw [hrep3] at hval3
+  rw [floor_add_shift sq mq eq (by rw [hval3]; exact hr3b)]
+  have : Dy.floor (F64.fin sq mq eq).toDy = 2 ^ 45 - 1 := by
+    apply Dy.floor_unique
+    · show ((2 ^ 45 - 1 : ℤ) : ℚ) ≤ (F64.fin sq mq eq).val
+      rw [hval3, hr3e]; norm_num
+    · show (F64.fin sq mq eq).val < ((2 ^ 45 - 1 : ℤ) : ℚ) + 1
+      rw [hval3, hr3e]; norm_num
+  rw [this]; norm_num
+
+/-- latitude argument of the Geohash scale division: the pole is moved inside by half a cell -/
+def ghLat (lat : F64) : F64 := if F64.eq lat MathF.qd then lat - (MathF.qd / shift45) / 2 else lat
+
+theorem geohash_scale_eq (lat lon : F64) :
+    Geohash.scale lat lon =
+      if F64.gt (F64.abs lat) MathF.qd then .error "lat" else
+      if lat.isNaN || lon.isNaN then .ok none else
+      .ok (some ((Dy.floor (F64.floor (prepLon lon / (MathF.hd / shift45)) + shift45).toDy).toNat,
+                 (Dy.floor (F64.floor (ghLat lat / (MathF.qd / shift45)) + shift45).toDy).toNat)) := rfl
+
+theorem geohash_scaleExact_eq (lat lon : F64) :
+    Geohash.scaleExact lat lon =
+      if !(lat.isFinite && lon.isFinite) then none else
+      some ((flExact (prepLon lon).toDy 180 + 2 ^ 45).toNat,
+            (if F64.eq lat MathF.qd then 2 ^ 46 - 1 else flExact lat.toDy 90 + 2 ^ 45 : ℤ).toNat) := rfl
+
+/-- **`scale_contains`, Geohash** (every accepted finite position).  Both `scaleExact` and `scale` succeed with
+46-bit coordinates `n + 2^45`, `c + 2^45`; in longitude the exact index `nx = ⌊lon'·2^45/180⌋` and the coded one
+`cx = ⌊rnd(lon'/loneps)⌋` are related by `CellRelQ` (`cx = nx`, or `cx = nx + 1` when the rounded quotient is exactly
+that integer: class F2); in latitude the same away from the pole, and at `lat = 90` both give the last row `2^46 − 1`.
+The additions of `2^45` and the constants `loneps = 180/2^45`, `lateps = 90/2^45` are exact (proved, not assumed). -/
+theorem geohash_scale_contains (lat lon : F64) (h1 : F64.gt (F64.abs lat) MathF.qd = false)
+    (h2 : (lat.isNaN || lon.isNaN) = false) (hf : lon.isFinite = true) :
+    ∃ nx ny cx cy : ℤ,
+      Geohash.scaleExact lat lon = some ((nx + 2 ^ 45).toNat, (ny + 2 ^ 45).toNat) ∧
+      Geohash.scale lat lon = .ok (some ((cx + 2 ^ 45).toNat, (cy + 2 ^ 45).toNat)) ∧
+      (-(2:ℤ) ^ 45 ≤ nx ∧ nx < 2 ^ 45) ∧ (-(2:ℤ) ^ 45 ≤ ny ∧ ny < 2 ^ 45) ∧
+      CellRelQ ((prepLon lon).val * (2:ℚ) ^ (45:ℕ) / 180) (prepLon lon / (MathF.hd / shift45)).val nx cx ∧
+      (lat.val = 90 → ny = 2 ^ 45 - 1 ∧ cy = ny) ∧
+      (lat.val ≠ 90 → CellRelQ (lat.val * (2:ℚ) ^ (45:ℕ) / 90) (lat / (MathF.qd / shift45)).val ny cy) := by
+  have hnan : lat.isNaN = false := by
+    cases h : lat.isNaN <;> simp_all
+  obtain ⟨sl, ml, el, hl, hlb⟩ := lat_accepted lat h1 hnan
+  have hlatf : lat.isFinite = true := by rw [hl]; rfl
+  have hfin : (!(lat.isFinite && lon.isFinite)) = false := by rw [hlatf, hf]; rfl
+  -- longitude
+  rcases prepLon_spec lon with ⟨hf', _⟩ | ⟨_, s, m, e, hp, hlo, hhi, _⟩
+  · rw [hf] at hf'; exact absurd hf' (by decide)
+  have hxb : |(F64.fin s m e).val| ≤ ((180:ℕ):ℚ) := by
+    rw [← hp, abs_le]; push_cast; constructor <;> linarith
+  obtain ⟨a1, a2, a3, a4, a5⟩ := geohash_coord s m e 180 (by norm_num) (by norm_num) hxb
+  rw [← hp] at a1 a2 a3 a4 a5
+  have hhd : MathF.hd = .fin false 180 0 := rfl
+  have hqd : MathF.qd = .fin false 90 0 := rfl
+  have a5' := a5 (by push_cast; exact hhi)
+  have h90 : (MathF.qd).val = 90 := by rw [hqd, F64.val_fin]; simp
+  rw [geohash_scaleExact_eq, geohash_scale_eq, h1, h2, hfin]
+  simp only [Bool.false_eq_true, if_false]
+  by_cases hE : F64.eq lat MathF.qd = true
+  · -- the pole
+    have hv : lat.val = 90 := by rw [(F64.eq_fin_iff _ _ hlatf rfl).mp hE, h90]
+    have hpole := geohash_pole sl ml el (by rw [← hl]; exact hv)
+    simp only [] at hpole
+    rw [← hl, ← hqd] at hpole
+    refine ⟨flExact (prepLon lon).toDy 180, 2 ^ 45 - 1, divFloorCoded (prepLon lon) (MathF.hd / shift45), 2 ^ 45 - 1,
+      ?_, ?_, ⟨a3, a5'⟩, ⟨by norm_num, by norm_num⟩, ?_, fun _ => ⟨rfl, rfl⟩, fun hne => absurd hv hne⟩
+    · rw [if_pos hE]; norm_num
+    · unfold ghLat; rw [if_pos hE, hpole, hhd, a2]; norm_num
+    · push_cast at a1; rw [hhd]; exact a1
+  · have hne : lat.val ≠ 90 := by
+      intro hc; apply hE
+      exact (F64.eq_fin_iff _ _ hlatf rfl).mpr (by rw [hc, h90])
+    have hyb : |(F64.fin sl ml el).val| ≤ ((90:ℕ):ℚ) := by rw [← hl]; push_cast; exact hlb
+    obtain ⟨b1, b2, b3, b4, b5⟩ := geohash_coord sl ml el 90 (by norm_num) (by norm_num) hyb
+    rw [← hl] at b1 b2 b3 b4 b5
+    have b5' := b5 (by push_cast; exact lt_of_le_of_ne (abs_le.mp hlb).2 hne)
+    refine ⟨flExact (prepLon lon).toDy 180, flExact lat.toDy 90, divFloorCoded (prepLon lon) (MathF.hd / shift45),
+      divFloorCoded lat (MathF.qd / shift45), ?_, ?_, ⟨a3, a5'⟩, ⟨b3, b5'⟩, ?_, fun hc => absurd hc hne, fun _ => ?_⟩
+    · rw [if_neg hE]
+    · unfold ghLat; rw [if_neg hE, hhd, hqd, a2, b2]
+    · push_cast at a1; rw [hhd]; exact a1
+    · push_cast at b1; rw [hqd]; exact b1
+
+example : F64.gt (F64.abs (.fin false 91 (-1))) MathF.qd = false ∧ (F64.fin false 1 (-2)).isFinite = true := by
+  decide +kernel
+
+/-- **OSGB, first scale step** (`xh = ⌊x / tile⌋`, one rounded division): for every finite easting/northing with
+`|x| ≤ 10^7` m and `n = ⌊x / 10^5⌋` (exact), the coded 100 km tile index is `n`, or `n + 1` when the rounded quotient is
+exactly `n + 1` (class F2).  The later steps of `GridReference` (`x − tile·xh`, the digit scaling) are not covered. -/
+theorem osgb_tile_contains (s : Bool) (m : ℕ) (e : ℤ) (hx : |(F64.fin s m e).val| ≤ 10000000) (n : ℤ)
+    (h1 : (n:ℚ) ≤ (F64.fin s m e).val / 100000) (h2 : (F64.fin s m e).val / 100000 < (n:ℚ) + 1) :
+    CellRelQ ((F64.fin s m e).val / 100000) ((F64.fin s m e) / F64.ofInt osgb_tile).val n
+      (OSGB.fl ((F64.fin s m e) / F64.ofInt osgb_tile)) := by
+  have ht : F64.ofInt osgb_tile = .fin false 100000 0 := rfl
+  have hv : (F64.fin false 100000 0).val = 100000 := by rw [F64.val_fin]; simp
+  have hq : |(F64.fin s m e).val / (F64.fin false 100000 0).val| ≤ 2 ^ 52 := by
+    rw [hv, abs_div, abs_of_pos (by norm_num : (0:ℚ) < 100000), div_le_iff₀ (by norm_num)]
+    have : (10000000:ℚ) ≤ 2 ^ 52 * 100000 := by norm_num
+    linarith
+  have := divFloor_contains s false m 100000 e 0 (by norm_num) n hq (by rw [hv]; exact h1) (by rw [hv]; exact h2)
+  rw [hv] at this
+  rw [ht]
+  exact ⟨⟨h1, h2⟩, this.2⟩
+
+
+end GeohashScale
+
+/-! ### integer codec round trips (all inputs)
+
+`readNum ∘ digitsW` for every table (`Proofs/Digits.lean`, by induction), then `decodeInt ∘ encodeInt` for GARS. -/
+
+/-- **digit strings read back**: for a table whose `lookup` inverts `chr` on `[0, b)`,
+`readNum (toBytes (digitsW tbl b w n)) = some (n mod b^w)` (every width, every `n`) -/
+theorem digits_readback (tbl : List Char) (b : Nat) (hb : 0 < b)
+    (ht : ∀ k < b, lookup tbl (chr tbl k).toNat = some k) (w n : Nat) :
+    readNum tbl b (toBytes (digitsW tbl b w n)) = some (n % b ^ w) :=
+  Digits.readNum_digitsW tbl b hb ht w n
+
+theorem gars_lon_readback (n : Nat) : readNum GARS.digits 10 (toBytes (digitsW GARS.digits 10 3 n)) = some (n % 1000) :=
+  digits_readback _ 10 (by norm_num) gars_digits_lookup 3 n
+theorem gars_lat_readback (n : Nat) : readNum GARS.letters 24 (toBytes (digitsW GARS.letters 24 2 n)) = some (n % 576) :=
+  digits_readback _ 24 (by norm_num) gars_letters_lookup 2 n
+theorem georef_digits_readback (w n : Nat) :
+    readNum Georef.digits 10 (toBytes (digitsW Georef.digits 10 w n)) = some (n % 10 ^ w) :=
+  digits_readback _ 10 (by norm_num) (by decide) w n
+theorem osgb_digits_readback (w n : Nat) :
+    readNum OSGB.digits 10 (toBytes (digitsW OSGB.digits 10 w n)) = some (n % 10 ^ w) :=
+  digits_readback _ 10 (by norm_num) osgb_digits_lookup w n
+
+/-- decoder on a well-formed 5/6/7-character string given by its table indices -/
+theorem gars_decode_chars (a b c d e : Nat) (k6 k7 : Nat) (prec : Nat) (hp : prec ≤ 2) (cp : Bool)
+    (ha : a < 10) (hb : b < 10) (hc : c < 10) (hd : d < 24) (he : e < 24)
+    (h1 : 1 ≤ 100 * a + 10 * b + c) (h2 : 100 * a + 10 * b + c ≤ 720) (h3 : 24 * d + e < 360)
+    (h6 : 1 ≤ k6 ∧ k6 ≤ 4) (h7 : 1 ≤ k7 ∧ k7 ≤ 9) :
+    GARS.decodeInt (toBytes ([chr GARS.digits a, chr GARS.digits b, chr GARS.digits c, chr GARS.letters d, chr GARS.letters e]
+        ++ (if prec > 0 then [chr GARS.digits k6] else []) ++ (if prec > 1 then [chr GARS.digits k7] else []))) cp
+     = let lat0 : Int := (24 * d + e : Nat) - 180
+       let lon0 : Int := (100 * a + 10 * b + c : Nat) - 1 - 360
+       let lat1 : Int := if prec > 0 then 2 * lat0 + (1 - ((k6 : Int) - 1) / 2) else lat0
+       let lon1 : Int := if prec > 0 then 2 * lon0 + ((k6 : Int) - 1) % 2 else lon0
+       let lat2 : Int := if prec > 1 then 3 * lat1 + (2 - ((k7 : Int) - 1) / 3) else lat1
+       let lon2 : Int := if prec > 1 then 3 * lon1 + ((k7 : Int) - 1) % 3 else lon1
+       let u : Int := 2 * (if prec > 0 then 2 else 1) * (if prec > 1 then 3 else 1)
+       .ok ⟨if cp then 2 * lat2 + 1 else lat2, if cp then 2 * lon2 + 1 else lon2, if cp then u * 2 else u, prec⟩ := by
+  have hk6 : k6 < 10 := by omega
+  have hk7 : k7 < 10 := by omega
+  have c1 : ¬ (((a:Int) * 10 + b) * 10 + c < 1 ∨ 720 < ((a:Int) * 10 + b) * 10 + c) := by omega
+  have c2 : ((d:Int) * 24 + e < 360) := by omega
+  have c5 : ¬ (k6 = 0 ∨ 4 < k6) := by omega
+  have c6 : ¬ (k7 = 0) := by omega
+  unfold GARS.decodeInt
+  obtain rfl | rfl | rfl : prec = 0 ∨ prec = 1 ∨ prec = 2 := by omega
+  all_goals
+    simp only [toBytes, gars_baselen, gars_maxlen, gars_lonlen, gars_latlen,
+      gars_baselon, gars_baselat, gars_mult1, gars_mult2, gars_mult3, gars_latorig, gars_lonorig, Gen.MathC.td]
+    cases cp <;>
+    simp [gars_digits_lookup a ha, gars_digits_lookup b hb, gars_digits_lookup c hc, gars_letters_lookup d hd, gars_letters_lookup e he,
+      gars_digits_lookup k6 hk6, gars_digits_lookup k7 hk7, c1, c2, c5, c6]
+  all_goals
+    show Except.ok _ = Except.ok _
+    congr 1
+    simp only [GARS.Dec.mk.injEq, and_true]
+    constructor <;> omega
+
+
+theorem gars_encodeInt_form (X Y : Int) (prec : Nat) :
+    GARS.encodeInt X Y prec =
+      let ilon := X * 2 / 12; let ilat := Y * 2 / 12
+      let x := X - ilon * 12 / 2; let y := Y - ilat * 12 / 2
+      let n := (ilon + 1).toNat; let l := ilat.toNat
+      [chr GARS.digits (n / 10 / 10 % 10), chr GARS.digits (n / 10 % 10), chr GARS.digits (n % 10),
+       chr GARS.letters (l / 24 % 24), chr GARS.letters (l % 24)] ++
+      (if prec > 0 then [chr GARS.digits (2 * (2 - 1 - y / 3) + x / 3 + 1).toNat] else []) ++
+      (if prec > 1 then [chr GARS.digits (3 * (3 - 1 - y % 3) + x % 3 + 1).toNat] else []) := by
+  simp [GARS.encodeInt, digitsW, GARS.m, gars_mult1, gars_m, gars_baselon, gars_lonlen, gars_baselat, gars_latlen, gars_mult2, gars_mult3]
+
+/-- cells per degree at precision 0/1/2: 2, 4, 12 -/
+def garsUnit (prec : Nat) : Int := 2 * (if prec > 0 then 2 else 1) * (if prec > 1 then 3 else 1)
+
+/-- **`decode_encode_int`, GARS** (all cells, all precisions, both `centerp`): decoding the code of the finest-level
+cell `(X, Y)` returns the precision and the cell of `(X, Y)` at that precision — `lon1 = ⌊X / (m/u)⌋ + lonorig·u`
+in units of `1/u` degree, `u = garsUnit prec` (or the centre `2·lon1 + 1` in units `1/(2u)`). -/
+theorem gars_decode_encode (X Y : Int) (hX : 0 ≤ X ∧ X < 360 * GARS.m) (hY : 0 ≤ Y ∧ Y < 180 * GARS.m)
+    (prec : Nat) (hp : prec ≤ 2) (cp : Bool) :
+    GARS.decodeInt (toBytes (GARS.encodeInt X Y prec)) cp =
+      let u := garsUnit prec
+      let lat1 := Y / (GARS.m / u) + gars_latorig * u
+      let lon1 := X / (GARS.m / u) + gars_lonorig * u
+      .ok ⟨if cp then 2 * lat1 + 1 else lat1, if cp then 2 * lon1 + 1 else lon1, if cp then u * 2 else u, prec⟩ := by
+  have hm : GARS.m = 12 := rfl
+  rw [hm] at hX hY
+  rw [gars_encodeInt_form]
+  simp only []
+  rw [gars_decode_chars _ _ _ _ _ _ _ prec hp cp (Nat.mod_lt _ (by norm_num)) (Nat.mod_lt _ (by norm_num))
+    (Nat.mod_lt _ (by norm_num)) (Nat.mod_lt _ (by norm_num)) (Nat.mod_lt _ (by norm_num))
+    (by omega) (by omega) (by omega) (by omega) (by omega)]
+  simp only [garsUnit, hm, gars_latorig, gars_lonorig]
+  obtain rfl | rfl | rfl : prec = 0 ∨ prec = 1 ∨ prec = 2 := by omega
+  all_goals
+    cases cp <;>
+    · simp only [Nat.lt_irrefl, Nat.zero_lt_one, Nat.one_lt_two, Nat.zero_lt_two, gt_iff_lt, if_true, if_false,
+        Bool.false_eq_true, Nat.not_lt_zero]
+      congr 1
+      simp only [GARS.Dec.mk.injEq, and_true]
+      constructor <;> omega
+
+example : (match GARS.decodeInt (toBytes (GARS.encodeInt 2167 1085 2)) true with
+    | .ok d => decide (d = ⟨2 * (1085 - 1080) + 1, 2 * (2167 - 2160) + 1, 24, 2⟩) | .error _ => false) = true := by decide
+
+/-- **`decode_encode_int`, Geohash** (every cell, every length `≤ 18`): decoding the hash of `(ulon, ulat)` returns
+the length and the top `⌈5·len/2⌉` bits of `ulon` and the top `⌊5·len/2⌋` bits of `ulat` (as 46-bit numbers) -/
+theorem geohash_decode_encode (ulon ulat len : Nat) (hlen : len ≤ 18) :
+    Geohash.decodeInt (toBytes (Geohash.encodeInt ulon ulat len)) =
+      .ok ⟨ulon / 2 ^ (46 - (5 * len + 1) / 2) % 2 ^ ((5 * len + 1) / 2),
+           ulat / 2 ^ (46 - 5 * len / 2) % 2 ^ (5 * len / 2), len⟩ := by
+  obtain ⟨h1, h2⟩ := GeohashBits.go_encodeInt ulon ulat len hlen
+  unfold Geohash.decodeInt
+  have hmin : min Geohash.maxlen (toBytes (Geohash.encodeInt ulon ulat len)).length = len := by
+    rw [h1]; show min 18 len = len
+    omega
+  simp only [hmin]
+  rw [List.take_of_length_le (by rw [h1]), h2]
+  rfl
+
+/-- for 46-bit cell coordinates the decoded numbers are plain right shifts -/
+theorem geohash_decode_encode46 (ulon ulat len : Nat) (hlen : len ≤ 18) (h1 : ulon < 2 ^ 46) (h2 : ulat < 2 ^ 46) :
+    Geohash.decodeInt (toBytes (Geohash.encodeInt ulon ulat len)) =
+      .ok ⟨ulon >>> (46 - (5 * len + 1) / 2), ulat >>> (46 - 5 * len / 2), len⟩ := by
+  rw [geohash_decode_encode ulon ulat len hlen, Nat.shiftRight_eq_div_pow, Nat.shiftRight_eq_div_pow]
+  have key : ∀ u k : Nat, u < 2 ^ 46 → k ≤ 46 → u / 2 ^ (46 - k) % 2 ^ k = u / 2 ^ (46 - k) := by
+    intro u k hu hk
+    apply Nat.mod_eq_of_lt
+    rw [Nat.div_lt_iff_lt_mul (Nat.pos_of_ne_zero (by simp))]
+    rw [← Nat.pow_add, show k + (46 - k) = 46 by omega]; exact hu
+  rw [key ulon _ h1 (by omega), key ulat _ h2 (by omega)]
+
+example : (match Geohash.decodeInt (toBytes (Geohash.encodeInt (2^45 + 12345678901) (2^45 + 333) 7)) with
+    | .ok d => decide (d = ⟨(2^45 + 12345678901) >>> 28, (2^45 + 333) >>> 29, 7⟩) | .error _ => false) = true := by decide
+
+/-! ### Georef: `decodeInt ∘ encodeInt` for every cell and every precision (tile, degree, and the digit loop) -/
+
+/-- one step of the digit loop of `Georef::Reverse` on known digits -/
+def georefStep (xd yd : Nat → Nat) (i : Nat) (st : Int × Int × Int) : Int × Int × Int :=
+  ((if i ≠ 0 then 10 else 6) * st.1 + (xd i : Int), (if i ≠ 0 then 10 else 6) * st.2.1 + (yd i : Int),
+   st.2.2 * (if i ≠ 0 then 10 else 6))
+
+theorem georef_decode_long (s : List Nat) (cp : Bool) (k0 k1 k2 k3 p : Nat) (hp2 : 2 ≤ p) (hp11 : p ≤ 11)
+    (hlen : s.length = 4 + 2 * p)
+    (h0 : lookup Georef.lontile (s.getD 0 0) = some k0) (h1 : lookup Georef.lattile (s.getD 1 0) = some k1)
+    (h2 : lookup Georef.degrees (s.getD 2 0) = some k2) (h3 : lookup Georef.degrees (s.getD 3 0) = some k3)
+    (hdig : ((s.drop 4).any fun c => !decide (48 ≤ c ∧ c ≤ 57)) = false)
+    (xd yd : Nat → Nat)
+    (hxd : ∀ i, i < p → lookup Georef.digits (s.getD (4 + i) 0) = some (xd i))
+    (hyd : ∀ i, i < p → lookup Georef.digits (s.getD (4 + i + p) 0) = some (yd i))
+    (h6 : xd 0 < 6 ∧ yd 0 < 6) :
+    Georef.decodeInt s cp =
+      .ok (let st := (List.range p).foldl (fun st i => georefStep xd yd i st)
+              (((k0:Int) + -180 / 15) * 15 + k2, ((k1:Int) + -90 / 15) * 15 + k3, 1 * 15)
+           ⟨if cp then 2 * st.2.1 + 1 else st.2.1, if cp then 2 * st.1 + 1 else st.1,
+            if cp then st.2.2 * 2 else st.2.2, p⟩) := by
+  have hlenI : (s.length : Int) = 4 + 2 * p := by exact_mod_cast hlen
+  have hprec : (2 + (4 + 2 * (p:Int)) - 4) / 2 - 1 = p := by omega
+  have c1 : ¬ (4 + 2 * (p:Int) < 4 - 2) := by omega
+  have c2 : 4 + 2 * (p:Int) > 2 := by omega
+  have c3 : ¬ (4 + 2 * (p:Int) < 4) := by omega
+  have c4 : 4 + 2 * (p:Int) > 4 := by omega
+  have c5 : ¬ ((4 + 2 * (p:Int)) % 2 ≠ 0) := by omega
+  have c6 : ¬ ((p:Int) = 1) := by omega
+  have c7 : ¬ ((p:Int) > 11) := by omega
+  have ht : Int.toNat 4 = 4 := rfl
+  unfold Georef.decodeInt
+  simp only [hlenI, georef_baselen, georef_tile, georef_lonorig, georef_latorig, georef_maxprec, georef_base, h0, h1, h2, h3, hprec,
+    c1, c2, c3, c4, c5, c6, c7, ht, hdig, if_true, if_false, Int.toNat_natCast, Bool.false_eq_true, pure_bind]
+  rw [GeorefLoop.forIn_yield _ _ _ (georefStep xd yd) (by
+    intro i hi st
+    have hi' : i < p := List.mem_range.mp hi
+    rw [hxd i hi', hyd i hi']
+    by_cases h : i = 0
+    · subst h
+      have a1 : ((xd 0 : Nat) : Int) < 6 := by exact_mod_cast h6.1
+      have a2 : ((yd 0 : Nat) : Int) < 6 := by exact_mod_cast h6.2
+      simp [georefStep, a1, a2, pure, Except.pure]
+    · simp [georefStep, h, pure, Except.pure])]
+  cases cp <;> rfl
+
+
+/-- minutes-and-decimals weight after `j` digits: `1, 6, 60, 600, …` -/
+def georefW (j : Nat) : Int := if j = 0 then 1 else 6 * 10 ^ (j - 1)
+
+/-- value of the digit loop after `j` steps on the big-endian digits of `x`, `y` (width `p`) -/
+theorem georef_fold (p x y : Nat) (hp : 1 ≤ p) (hx : x < 6 * 10 ^ (p - 1)) (hy : y < 6 * 10 ^ (p - 1))
+    (lon0 lat0 u0 : Int) (j : Nat) (hj : j ≤ p) :
+    (List.range j).foldl (fun st i => georefStep (fun i => x / 10 ^ (p - 1 - i) % 10) (fun i => y / 10 ^ (p - 1 - i) % 10) i st)
+        (lon0, lat0, u0)
+      = (lon0 * georefW j + ((x / 10 ^ (p - j) : Nat) : Int), lat0 * georefW j + ((y / 10 ^ (p - j) : Nat) : Int),
+         u0 * georefW j) := by
+  have h10 : (10:Nat) ^ p = 10 * 10 ^ (p - 1) := by
+    conv_lhs => rw [show p = (p - 1) + 1 by omega]
+    rw [Nat.pow_succ, Nat.mul_comm]
+  have e1 : x / 10 ^ p = 0 := by apply Nat.div_eq_of_lt; omega
+  have e2 : y / 10 ^ p = 0 := by apply Nat.div_eq_of_lt; omega
+  have w0 : georefW 0 = 1 := rfl
+  have w1 : georefW 1 = 6 := by decide
+  induction j with
+  | zero =>
+    rw [List.range_zero, List.foldl_nil, Nat.sub_zero, e1, e2, w0]
+    refine Prod.ext ?_ (Prod.ext ?_ ?_) <;> simp only [] <;> omega
+  | succ j ih =>
+    rw [List.range_succ, List.foldl_append, ih (by omega)]
+    simp only [List.foldl_cons, List.foldl_nil, georefStep]
+    by_cases h0 : j = 0
+    · subst h0
+      have f1 : x / 10 ^ (p - 1) < 6 := by rw [Nat.div_lt_iff_lt_mul (by positivity)]; exact hx
+      have f2 : y / 10 ^ (p - 1) < 6 := by rw [Nat.div_lt_iff_lt_mul (by positivity)]; exact hy
+      rw [Nat.sub_zero, Nat.sub_zero, Nat.zero_add, e1, e2, w0, w1]
+      rw [Nat.mod_eq_of_lt (by omega : x / 10 ^ (p - 1) < 10), Nat.mod_eq_of_lt (by omega : y / 10 ^ (p - 1) < 10)]
+      generalize x / 10 ^ (p - 1) = a
+      generalize y / 10 ^ (p - 1) = b
+      simp only [ne_eq, not_true_eq_false, if_false]
+      refine Prod.ext ?_ (Prod.ext ?_ ?_) <;> simp only [] <;> omega
+    · have hj1 : p - 1 - j + 1 = p - j := by omega
+      have hA : x / 10 ^ (p - j) = x / 10 ^ (p - 1 - j) / 10 := by
+        rw [← hj1, Nat.pow_succ, Nat.div_div_eq_div_mul]
+      have hB : y / 10 ^ (p - j) = y / 10 ^ (p - 1 - j) / 10 := by
+        rw [← hj1, Nat.pow_succ, Nat.div_div_eq_div_mul]
+      have hW : georefW (j + 1) = 10 * georefW j := by
+        unfold georefW
+        rw [if_neg (by omega), if_neg h0, show j + 1 - 1 = (j - 1) + 1 by omega, Int.pow_succ]
+        omega
+      rw [hA, hB, hW, show p - (j + 1) = p - 1 - j by omega]
+      simp only [ne_eq, h0, not_false_eq_true, if_true]
+      generalize x / 10 ^ (p - 1 - j) = A
+      generalize y / 10 ^ (p - 1 - j) = B
+      rw [Int.mul_left_comm lon0 10, Int.mul_left_comm lat0 10, Int.mul_left_comm u0 10]
+      generalize lon0 * georefW j = L
+      generalize lat0 * georefW j = M
+      generalize u0 * georefW j = U
+      refine Prod.ext ?_ (Prod.ext ?_ ?_) <;> simp only [] <;> omega
+
+
+theorem georef_digits_lookup : ∀ k < 10, lookup Georef.digits (chr Georef.digits k).toNat = some k := by decide
+theorem georef_digit_bytes : ∀ k < 10, 48 ≤ (chr Georef.digits k).toNat ∧ (chr Georef.digits k).toNat ≤ 57 := by decide
+
+theorem georef_digits_any (w n : Nat) :
+    ∀ c ∈ toBytes (digitsW Georef.digits 10 w n), 48 ≤ c ∧ c ≤ 57 := by
+  intro c hc
+  simp only [toBytes, List.mem_map] at hc
+  obtain ⟨ch, hch, rfl⟩ := hc
+  obtain ⟨k, hk, rfl⟩ := Digits.digitsW_mem Georef.digits 10 (by norm_num) w n ch hch
+  exact georef_digit_bytes k hk
+
+theorem getD_four (a b c d : Nat) (rest : List Nat) (i : Nat) : (a :: b :: c :: d :: rest).getD (4 + i) 0 = rest.getD i 0 := by
+  rw [Nat.add_comm]; rfl
+
+/-- **`decode_encode_int`, Georef, minutes and finer** (`2 ≤ prec ≤ 11`, every cell, both `centerp`): the decoded
+numerators are `⌊X / 10^(11−prec)⌋ + lonorig·W`, `W = 6·10^(prec−1)` cells per degree, over `unit = 15·W` -/
+theorem georef_decode_encode_long (X Y : Int) (hX : 0 ≤ X ∧ X < 360 * Georef.m) (hY : 0 ≤ Y ∧ Y < 180 * Georef.m)
+    (p : Nat) (hp2 : 2 ≤ p) (hp11 : p ≤ 11) (cp : Bool) :
+    Georef.decodeInt (toBytes (Georef.encodeInt X Y p)) cp =
+      let W := georefW p
+      let lat1 := Y / 10 ^ (11 - p) + georef_latorig * W
+      let lon1 := X / 10 ^ (11 - p) + georef_lonorig * W
+      .ok ⟨if cp then 2 * lat1 + 1 else lat1, if cp then 2 * lon1 + 1 else lon1,
+           if cp then 15 * W * 2 else 15 * W, p⟩ := by
+  have hm : Georef.m = 60000000000 := rfl
+  rw [hm] at hX hY
+  -- the string
+  have hpn : ¬ ((p:Int) < 0) := by omega
+  have hp0 : ¬ ((p:Int) = 0) := by omega
+  unfold Georef.encodeInt
+  simp only [hpn, hp0, if_false, hm, georef_tile, georef_base, georef_maxprec, Int.toNat_natCast]
+  set ilon := X / 60000000000 with hilon
+  set ilat := Y / 60000000000 with hilat
+  have hd : ((11:Int) - p).toNat = 11 - p := by omega
+  rw [hd]
+  set xN := ((X - 60000000000 * ilon) / 10 ^ (11 - p)).toNat with hxN
+  set yN := ((Y - 60000000000 * ilat) / 10 ^ (11 - p)).toNat with hyN
+  -- bounds
+  have i1 : 0 ≤ ilon ∧ ilon < 360 := by omega
+  have i2 : 0 ≤ ilat ∧ ilat < 180 := by omega
+  have hpow : (10:Int) ^ (11 - p) * (6 * 10 ^ (p - 1)) = 60000000000 := by
+    have : (11 - p) + (p - 1) = 10 := by omega
+    rw [Int.mul_comm, Int.mul_assoc, ← Int.pow_add, Nat.add_comm, this]; norm_num
+  have hpowpos : (0:Int) < 10 ^ (11 - p) := by positivity
+  have hpow' : (6:Int) * 10 ^ (p - 1) * 10 ^ (11 - p) = 60000000000 := by rw [Int.mul_comm]; exact hpow
+  have r0 : 0 ≤ X - 60000000000 * ilon ∧ X - 60000000000 * ilon < 60000000000 := by omega
+  have r1 : 0 ≤ Y - 60000000000 * ilat ∧ Y - 60000000000 * ilat < 60000000000 := by omega
+  have hxq : (X - 60000000000 * ilon) / 10 ^ (11 - p) < 6 * 10 ^ (p - 1) :=
+    Int.ediv_lt_of_lt_mul hpowpos (by rw [hpow']; exact r0.2)
+  have hyq : (Y - 60000000000 * ilat) / 10 ^ (11 - p) < 6 * 10 ^ (p - 1) :=
+    Int.ediv_lt_of_lt_mul hpowpos (by rw [hpow']; exact r1.2)
+  have hxq0 : 0 ≤ (X - 60000000000 * ilon) / 10 ^ (11 - p) := Int.ediv_nonneg r0.1 hpowpos.le
+  have hyq0 : 0 ≤ (Y - 60000000000 * ilat) / 10 ^ (11 - p) := Int.ediv_nonneg r1.1 hpowpos.le
+  have hxlt : xN < 6 * 10 ^ (p - 1) := by
+    have : ((xN : Nat) : Int) < ((6 * 10 ^ (p - 1) : Nat) : Int) := by
+      rw [hxN, Int.toNat_of_nonneg hxq0]; push_cast; exact hxq
+    exact_mod_cast this
+  have hylt : yN < 6 * 10 ^ (p - 1) := by
+    have : ((yN : Nat) : Int) < ((6 * 10 ^ (p - 1) : Nat) : Int) := by
+      rw [hyN, Int.toNat_of_nonneg hyq0]; push_cast; exact hyq
+    exact_mod_cast this
+  -- normal form of the byte string
+  have ht10 : Int.toNat 10 = 10 := rfl
+  simp only [toBytes, List.map_append, List.cons_append, List.nil_append, List.map_cons, ht10]
+  have hdx : (List.map Char.toNat (digitsW Georef.digits 10 p xN)) = toBytes (digitsW Georef.digits 10 p xN) := rfl
+  have hdy : (List.map Char.toNat (digitsW Georef.digits 10 p yN)) = toBytes (digitsW Georef.digits 10 p yN) := rfl
+  rw [hdx, hdy]
+  have lx : (toBytes (digitsW Georef.digits 10 p xN)).length = p := by simp [toBytes, Digits.digitsW_length]
+  have ly : (toBytes (digitsW Georef.digits 10 p yN)).length = p := by simp [toBytes, Digits.digitsW_length]
+  rw [georef_decode_long ((chr Georef.lontile (ilon / 15).toNat).toNat ::
+        (chr Georef.lattile (ilat / 15).toNat).toNat ::
+          (chr Georef.degrees (ilon % 15).toNat).toNat ::
+            (chr Georef.degrees (ilat % 15).toNat).toNat ::
+              (toBytes (digitsW Georef.digits 10 p xN) ++ toBytes (digitsW Georef.digits 10 p yN)))
+    cp (ilon / 15).toNat (ilat / 15).toNat (ilon % 15).toNat (ilat % 15).toNat p hp2 hp11
+    (by simp only [List.length_cons, List.length_append, lx, ly]; omega)
+    (georef_lontile_lookup _ (by omega)) (georef_lattile_lookup _ (by omega))
+    (georef_degrees_lookup _ (by omega)) (georef_degrees_lookup _ (by omega))
+    (by
+      simp only [List.drop_succ_cons, List.drop_zero]
+      rw [List.any_eq_false]
+      intro c hc
+      rcases List.mem_append.mp hc with h | h
+      · have := georef_digits_any p xN c h; simp [this]
+      · have := georef_digits_any p yN c h; simp [this])
+    (fun i => xN / 10 ^ (p - 1 - i) % 10) (fun i => yN / 10 ^ (p - 1 - i) % 10)
+    (by
+      intro i hi
+      rw [getD_four, List.getD_eq_getElem?_getD, List.getElem?_append_left (by rw [lx]; exact hi),
+        ← List.getD_eq_getElem?_getD, GeorefLoop.digitsW_getD _ _ _ _ _ hi]
+      exact georef_digits_lookup _ (Nat.mod_lt _ (by norm_num)))
+    (by
+      intro i hi
+      rw [Nat.add_assoc, getD_four, List.getD_eq_getElem?_getD, List.getElem?_append_right (by rw [lx]; omega), lx,
+        show i + p - p = i by omega, ← List.getD_eq_getElem?_getD, GeorefLoop.digitsW_getD _ _ _ _ _ hi]
+      exact georef_digits_lookup _ (Nat.mod_lt _ (by norm_num)))
+    (by
+      have f1 : xN / 10 ^ (p - 1) < 6 := by rw [Nat.div_lt_iff_lt_mul (by positivity)]; exact hxlt
+      have f2 : yN / 10 ^ (p - 1) < 6 := by rw [Nat.div_lt_iff_lt_mul (by positivity)]; exact hylt
+      simp only [Nat.sub_zero]
+      constructor
+      · rw [Nat.mod_eq_of_lt (by omega)]; exact f1
+      · rw [Nat.mod_eq_of_lt (by omega)]; exact f2)]
+  rw [georef_fold p xN yN (by omega) hxlt hylt _ _ _ p (Nat.le_refl _)]
+  have hW : georefW p = 6 * 10 ^ (p - 1) := by unfold georefW; rw [if_neg (by omega)]
+  have keyX : X / 10 ^ (11 - p) = (X - 60000000000 * ilon) / 10 ^ (11 - p) + ilon * (6 * 10 ^ (p - 1)) := by
+    have : X = (X - 60000000000 * ilon) + (ilon * (6 * 10 ^ (p - 1))) * 10 ^ (11 - p) := by
+      rw [Int.mul_assoc, hpow']; omega
+    conv_lhs => rw [this]
+    rw [Int.add_mul_ediv_right _ _ (ne_of_gt hpowpos)]
+  have keyY : Y / 10 ^ (11 - p) = (Y - 60000000000 * ilat) / 10 ^ (11 - p) + ilat * (6 * 10 ^ (p - 1)) := by
+    have : Y = (Y - 60000000000 * ilat) + (ilat * (6 * 10 ^ (p - 1))) * 10 ^ (11 - p) := by
+      rw [Int.mul_assoc, hpow']; omega
+    conv_lhs => rw [this]
+    rw [Int.add_mul_ediv_right _ _ (ne_of_gt hpowpos)]
+  have fx : ((((ilon / 15).toNat : Nat) : Int) + -180 / 15) * 15 + (((ilon % 15).toNat : Nat) : Int) = ilon - 180 := by omega
+  have fy : ((((ilat / 15).toNat : Nat) : Int) + -90 / 15) * 15 + (((ilat % 15).toNat : Nat) : Int) = ilat - 90 := by omega
+  have gx : ((xN / 10 ^ (p - p) : Nat) : Int) = (X - 60000000000 * ilon) / 10 ^ (11 - p) := by
+    rw [Nat.sub_self, Nat.pow_zero, Nat.div_one, hxN, Int.toNat_of_nonneg hxq0]
+  have gy : ((yN / 10 ^ (p - p) : Nat) : Int) = (Y - 60000000000 * ilat) / 10 ^ (11 - p) := by
+    rw [Nat.sub_self, Nat.pow_zero, Nat.div_one, hyN, Int.toNat_of_nonneg hyq0]
+  rw [fx, fy, gx, gy, keyX, keyY, hW, Int.sub_mul, Int.sub_mul]
+  simp only [georef_latorig, georef_lonorig]
+  generalize (X - 60000000000 * ilon) / 10 ^ (11 - p) = DX
+  generalize (Y - 60000000000 * ilat) / 10 ^ (11 - p) = DY
+  generalize ilon * (6 * 10 ^ (p - 1)) = LW
+  generalize ilat * (6 * 10 ^ (p - 1)) = MW
+  generalize (6:Int) * 10 ^ (p - 1) = W
+  congr 1
+  cases cp <;> simp only [Georef.Dec.mk.injEq, Bool.false_eq_true, if_false, if_true, and_true] <;>
+    refine ⟨?_, ?_, ?_⟩ <;> omega
+
+/-- **`decode_encode_int`, Georef, 15° tiles** (`prec < 0`): 2 letters, `unit = 1` (per 15°), precision `−1` -/
+theorem georef_decode_encode_tile (X Y : Int) (hX : 0 ≤ X ∧ X < 360 * Georef.m) (hY : 0 ≤ Y ∧ Y < 180 * Georef.m)
+    (prec : Int) (hp : prec < 0) (cp : Bool) :
+    Georef.decodeInt (toBytes (Georef.encodeInt X Y prec)) cp =
+      let lat1 := Y / (15 * Georef.m) + georef_latorig / 15
+      let lon1 := X / (15 * Georef.m) + georef_lonorig / 15
+      .ok ⟨if cp then 2 * lat1 + 1 else lat1, if cp then 2 * lon1 + 1 else lon1, if cp then 2 else 1, -1⟩ := by
+  have hm : Georef.m = 60000000000 := rfl
+  rw [hm] at hX hY
+  unfold Georef.encodeInt
+  simp only [hp, if_true, hm, georef_tile]
+  have i1 : 0 ≤ X / 60000000000 / 15 ∧ X / 60000000000 / 15 < 24 := by omega
+  have i2 : 0 ≤ Y / 60000000000 / 15 ∧ Y / 60000000000 / 15 < 12 := by omega
+  have l0 := georef_lontile_lookup (X / 60000000000 / 15).toNat (by omega)
+  have l1 := georef_lattile_lookup (Y / 60000000000 / 15).toNat (by omega)
+  unfold Georef.decodeInt
+  simp only [toBytes, List.map_cons, List.map_nil, List.length_cons, List.length_nil, georef_baselen, georef_tile,
+    georef_lonorig, georef_latorig]
+  cases cp <;> simp [l0, l1]
+  all_goals
+    show Except.ok _ = Except.ok _
+    congr 1
+    simp only [Georef.Dec.mk.injEq, and_true]
+    constructor <;> omega
+
+/-- **`decode_encode_int`, Georef, degrees** (`prec = 0`): 4 letters, `unit = 15` (per 15°), precision `0` -/
+theorem georef_decode_encode_degree (X Y : Int) (hX : 0 ≤ X ∧ X < 360 * Georef.m) (hY : 0 ≤ Y ∧ Y < 180 * Georef.m)
+    (cp : Bool) :
+    Georef.decodeInt (toBytes (Georef.encodeInt X Y 0)) cp =
+      let lat1 := Y / Georef.m + georef_latorig
+      let lon1 := X / Georef.m + georef_lonorig
+      .ok ⟨if cp then 2 * lat1 + 1 else lat1, if cp then 2 * lon1 + 1 else lon1, if cp then 30 else 15, 0⟩ := by
+  have hm : Georef.m = 60000000000 := rfl
+  rw [hm] at hX hY
+  unfold Georef.encodeInt
+  simp only [hm, georef_tile, Int.lt_irrefl, if_false, if_true]
+  have i1 : 0 ≤ X / 60000000000 / 15 ∧ X / 60000000000 / 15 < 24 := by omega
+  have i2 : 0 ≤ Y / 60000000000 / 15 ∧ Y / 60000000000 / 15 < 12 := by omega
+  have l0 := georef_lontile_lookup (X / 60000000000 / 15).toNat (by omega)
+  have l1 := georef_lattile_lookup (Y / 60000000000 / 15).toNat (by omega)
+  have l2 := georef_degrees_lookup (X / 60000000000 % 15).toNat (by omega)
+  have l3 := georef_degrees_lookup (Y / 60000000000 % 15).toNat (by omega)
+  unfold Georef.decodeInt
+  simp only [toBytes, List.map_cons, List.map_nil, List.cons_append, List.nil_append, List.length_cons,
+    List.length_nil, georef_baselen, georef_tile, georef_lonorig, georef_latorig]
+  cases cp <;> simp [l0, l1, l2, l3]
+  all_goals
+    show Except.ok _ = Except.ok _
+    congr 1
+    simp only [Georef.Dec.mk.injEq, and_true]
+    constructor <;> omega
+
+example : (match Georef.decodeInt (toBytes (Georef.encodeInt (183 * 60000000000 + 12345678901) (95 * 60000000000 + 7) 5)) false with
+    | .ok d => decide (d = ⟨(95 * 60000000000 + 7) / 10 ^ 6 - 90 * 60000, (183 * 60000000000 + 12345678901) / 10 ^ 6 - 180 * 60000,
+        15 * 60000, 5⟩) | .error _ => false) = true := by decide +kernel
+
+/-! ### end to end on the exact cell: `Reverse ∘ ForwardExact` contains the point -/
+
+/-- **the decoded cell of the exact code contains the point** (GARS, every accepted finite position, every precision):
+`Reverse(ForwardExact(lat, lon, prec))` on the integer level is the cell `[lon1/u, (lon1+1)/u) × [lat1/u, (lat1+1)/u)`
+(degrees, `u = garsUnit prec`) and it contains the prepared position `(prepLon lon, prepLat lat)`.
+(`Forward` itself codes this cell or — in the circumstance described by `gars_scale_contains` — a neighbour: F2.) -/
+theorem gars_cell_contains (lat lon : F64) (h1 : F64.gt (F64.abs lat) MathF.qd = false)
+    (h2 : (lat.isNaN || lon.isNaN) = false) (hf : lon.isFinite = true) (prec : Nat) (hp : prec ≤ 2) :
+    ∃ X Y : ℤ, GARS.scaleExact lat lon = .ok (some (X, Y)) ∧
+      ∃ d : GARS.Dec, GARS.decodeInt (toBytes (GARS.encodeInt X Y prec)) false = .ok d ∧
+        d.prec = prec ∧ d.unit = garsUnit prec ∧
+        (d.lon1 : ℚ) / d.unit ≤ (prepLon lon).val ∧ (prepLon lon).val < ((d.lon1 : ℚ) + 1) / d.unit ∧
+        (d.lat1 : ℚ) / d.unit ≤ (prepLat lat).val ∧ (prepLat lat).val < ((d.lat1 : ℚ) + 1) / d.unit := by
+  obtain ⟨X, Y, X', Y', hE, _, hX, _, hY, hY0, hY1⟩ := gars_scale_contains lat lon h1 h2
+  obtain ⟨⟨⟨cx1, cx2⟩, _⟩, hX0, hX1⟩ := hX hf
+  obtain ⟨⟨cy1, cy2⟩, _⟩ := hY
+  have hm : (F64.ofInt GARS.m).val = 12 := by
+    show (F64.fin false 12 0).val = 12
+    rw [F64.val_fin]; simp
+  rw [hm] at cx1 cx2 cy1 cy2
+  have hmm : GARS.m = 12 := rfl
+  have e1 : ((X + gars_lonorig * GARS.m : ℤ) : ℚ) = (X:ℚ) - 2160 := by
+    show ((X + (-180) * 12 : ℤ) : ℚ) = _
+    push_cast; ring
+  have e2 : ((Y + gars_latorig * GARS.m : ℤ) : ℚ) = (Y:ℚ) - 1080 := by
+    show ((Y + (-90) * 12 : ℤ) : ℚ) = _
+    push_cast; ring
+  rw [e1] at cx1 cx2
+  rw [e2] at cy1 cy2
+  refine ⟨X, Y, hE, _, gars_decode_encode X Y ⟨hX0, hX1⟩ ⟨hY0, hY1⟩ prec hp false, rfl, ?_⟩
+  simp only [Bool.false_eq_true, if_false]
+  rw [hmm]
+  refine ⟨trivial, ?_⟩
+  obtain rfl | rfl | rfl : prec = 0 ∨ prec = 1 ∨ prec = 2 := by omega
+  · -- u = 2, cell = 6 finest cells
+    have hu : garsUnit 0 = 2 := by decide
+    rw [hu]
+    have a1 : X / 6 * 6 ≤ X := by omega
+    have a2 : X + 1 ≤ (X / 6 + 1) * 6 := by omega
+    have b1 : Y / 6 * 6 ≤ Y := by omega
+    have b2 : Y + 1 ≤ (Y / 6 + 1) * 6 := by omega
+    have a1q : ((X / 6 : ℤ) : ℚ) * 6 ≤ X := by exact_mod_cast a1
+    have a2q : (X:ℚ) + 1 ≤ (((X / 6 : ℤ) : ℚ) + 1) * 6 := by exact_mod_cast a2
+    have b1q : ((Y / 6 : ℤ) : ℚ) * 6 ≤ Y := by exact_mod_cast b1
+    have b2q : (Y:ℚ) + 1 ≤ (((Y / 6 : ℤ) : ℚ) + 1) * 6 := by exact_mod_cast b2
+    show ((X / (12 / 2) + gars_lonorig * 2 : ℤ) : ℚ) / ((2:ℤ):ℚ) ≤ _ ∧ _ < (((X / (12 / 2) + gars_lonorig * 2 : ℤ) : ℚ) + 1) / ((2:ℤ):ℚ) ∧
+      ((Y / (12 / 2) + gars_latorig * 2 : ℤ) : ℚ) / ((2:ℤ):ℚ) ≤ _ ∧ _ < (((Y / (12 / 2) + gars_latorig * 2 : ℤ) : ℚ) + 1) / ((2:ℤ):ℚ)
+    have e6 : (12:ℤ) / 2 = 6 := by decide
+    rw [e6]
+    simp only [gars_lonorig, gars_latorig]
+    push_cast
+    refine ⟨?_, ?_, ?_, ?_⟩
+    · rw [div_le_iff₀ (by norm_num)]; linarith
+    · rw [lt_div_iff₀ (by norm_num)]; linarith
+    · rw [div_le_iff₀ (by norm_num)]; linarith
+    · rw [lt_div_iff₀ (by norm_num)]; linarith
+  · have hu : garsUnit 1 = 4 := by decide
+    rw [hu]
+    have a1 : X / 3 * 3 ≤ X := by omega
+    have a2 : X + 1 ≤ (X / 3 + 1) * 3 := by omega
+    have b1 : Y / 3 * 3 ≤ Y := by omega
+    have b2 : Y + 1 ≤ (Y / 3 + 1) * 3 := by omega
+    have a1q : ((X / 3 : ℤ) : ℚ) * 3 ≤ X := by exact_mod_cast a1
+    have a2q : (X:ℚ) + 1 ≤ (((X / 3 : ℤ) : ℚ) + 1) * 3 := by exact_mod_cast a2
+    have b1q : ((Y / 3 : ℤ) : ℚ) * 3 ≤ Y := by exact_mod_cast b1
+    have b2q : (Y:ℚ) + 1 ≤ (((Y / 3 : ℤ) : ℚ) + 1) * 3 := by exact_mod_cast b2
+    show ((X / (12 / 4) + gars_lonorig * 4 : ℤ) : ℚ) / ((4:ℤ):ℚ) ≤ _ ∧ _ < (((X / (12 / 4) + gars_lonorig * 4 : ℤ) : ℚ) + 1) / ((4:ℤ):ℚ) ∧
+      ((Y / (12 / 4) + gars_latorig * 4 : ℤ) : ℚ) / ((4:ℤ):ℚ) ≤ _ ∧ _ < (((Y / (12 / 4) + gars_latorig * 4 : ℤ) : ℚ) + 1) / ((4:ℤ):ℚ)
+    have e6 : (12:ℤ) / 4 = 3 := by decide
+    rw [e6]
+    simp only [gars_lonorig, gars_latorig]
+    push_cast
+    refine ⟨?_, ?_, ?_, ?_⟩
+    · rw [div_le_iff₀ (by norm_num)]; linarith
+    · rw [lt_div_iff₀ (by norm_num)]; linarith
+    · rw [div_le_iff₀ (by norm_num)]; linarith
+    · rw [lt_div_iff₀ (by norm_num)]; linarith
+  · have hu : garsUnit 2 = 12 := by decide
+    rw [hu]
+    show ((X / (12 / 12) + gars_lonorig * 12 : ℤ) : ℚ) / ((12:ℤ):ℚ) ≤ _ ∧ _ < (((X / (12 / 12) + gars_lonorig * 12 : ℤ) : ℚ) + 1) / ((12:ℤ):ℚ) ∧
+      ((Y / (12 / 12) + gars_latorig * 12 : ℤ) : ℚ) / ((12:ℤ):ℚ) ≤ _ ∧ _ < (((Y / (12 / 12) + gars_latorig * 12 : ℤ) : ℚ) + 1) / ((12:ℤ):ℚ)
+    have e6 : (12:ℤ) / 12 = 1 := by decide
+    rw [e6, Int.ediv_one, Int.ediv_one]
+    simp only [gars_lonorig, gars_latorig]
+    push_cast
+    refine ⟨?_, ?_, ?_, ?_⟩
+    · rw [div_le_iff₀ (by norm_num)]; linarith
+    · rw [lt_div_iff₀ (by norm_num)]; linarith
+    · rw [div_le_iff₀ (by norm_num)]; linarith
+    · rw [lt_div_iff₀ (by norm_num)]; linarith
+
+
+/-- **the decoded cell of the exact code contains the point** (Georef, minutes and finer, `2 ≤ prec ≤ 11`):
+the decoded numerators over `W = 6·10^(prec−1)` cells per degree bracket the prepared position. -/
+theorem georef_cell_contains (lat lon : F64) (h1 : F64.gt (F64.abs lat) MathF.qd = false)
+    (h2 : (lat.isNaN || lon.isNaN) = false) (hf : lon.isFinite = true) (p : Nat) (hp2 : 2 ≤ p) (hp11 : p ≤ 11) :
+    ∃ X Y : ℤ, Georef.scaleExact lat lon = .ok (some (X, Y)) ∧
+      ∃ d : Georef.Dec, Georef.decodeInt (toBytes (Georef.encodeInt X Y p)) false = .ok d ∧
+        d.prec = p ∧ d.unit = 15 * georefW p ∧
+        (d.lon1 : ℚ) / (georefW p : ℚ) ≤ (prepLon lon).val ∧ (prepLon lon).val < ((d.lon1 : ℚ) + 1) / (georefW p : ℚ) ∧
+        (d.lat1 : ℚ) / (georefW p : ℚ) ≤ (prepLat lat).val ∧ (prepLat lat).val < ((d.lat1 : ℚ) + 1) / (georefW p : ℚ) := by
+  obtain ⟨X, Y, X', Y', hE, _, hX, _, hY, hY0, hY1⟩ := georef_scale_contains lat lon h1 h2
+  obtain ⟨⟨⟨cx1, cx2⟩, _⟩, hX0, hX1⟩ := hX hf
+  obtain ⟨⟨cy1, cy2⟩, _⟩ := hY
+  have hm : (F64.ofInt Georef.m).val = 60000000000 := by
+    show (F64.fin false 60000000000 0).val = 60000000000
+    rw [F64.val_fin]; simp
+  rw [hm] at cx1 cx2 cy1 cy2
+  have e1 : ((X + georef_lonorig * Georef.m : ℤ) : ℚ) = (X:ℚ) - 180 * 60000000000 := by
+    show ((X + (-180) * 60000000000 : ℤ) : ℚ) = _
+    push_cast; ring
+  have e2 : ((Y + georef_latorig * Georef.m : ℤ) : ℚ) = (Y:ℚ) - 90 * 60000000000 := by
+    show ((Y + (-90) * 60000000000 : ℤ) : ℚ) = _
+    push_cast; ring
+  rw [e1] at cx1 cx2
+  rw [e2] at cy1 cy2
+  refine ⟨X, Y, hE, _, georef_decode_encode_long X Y ⟨hX0, hX1⟩ ⟨hY0, hY1⟩ p hp2 hp11 false, rfl, ?_⟩
+  simp only [Bool.false_eq_true, if_false]
+  refine ⟨trivial, ?_⟩
+  have hW : georefW p = 6 * 10 ^ (p - 1) := by unfold georefW; rw [if_neg (by omega)]
+  have hWD : (6 * 10 ^ (p - 1) : ℤ) * 10 ^ (11 - p) = 60000000000 := by
+    have : (p - 1) + (11 - p) = 10 := by omega
+    rw [mul_assoc, ← pow_add, this]; norm_num
+  set W : ℤ := 6 * 10 ^ (p - 1) with hWd
+  set D : ℤ := 10 ^ (11 - p) with hDd
+  have hWpos : (0:ℤ) < W := by positivity
+  have hDpos : (0:ℤ) < D := by positivity
+  have hWq : (0:ℚ) < (W:ℚ) := by exact_mod_cast hWpos
+  have hDq : (0:ℚ) < (D:ℚ) := by exact_mod_cast hDpos
+  have hWDq : (W:ℚ) * (D:ℚ) = 60000000000 := by exact_mod_cast hWD
+  rw [hW]
+  have a1 : X / D * D ≤ X := Int.ediv_mul_le X (ne_of_gt hDpos)
+  have a2 : X < (X / D + 1) * D := Int.lt_ediv_add_one_mul_self X hDpos
+  have b1 : Y / D * D ≤ Y := Int.ediv_mul_le Y (ne_of_gt hDpos)
+  have b2 : Y < (Y / D + 1) * D := Int.lt_ediv_add_one_mul_self Y hDpos
+  have a1q : ((X / D : ℤ) : ℚ) * D ≤ X := by exact_mod_cast a1
+  have a2q : (X:ℚ) + 1 ≤ (((X / D : ℤ) : ℚ) + 1) * D := by exact_mod_cast (by omega : X + 1 ≤ (X / D + 1) * D)
+  have b1q : ((Y / D : ℤ) : ℚ) * D ≤ Y := by exact_mod_cast b1
+  have b2q : (Y:ℚ) + 1 ≤ (((Y / D : ℤ) : ℚ) + 1) * D := by exact_mod_cast (by omega : Y + 1 ≤ (Y / D + 1) * D)
+  simp only [georef_lonorig, georef_latorig]
+  push_cast
+  have kx : ((prepLon lon).val * W + 180 * W) * D = (prepLon lon).val * 60000000000 + 180 * 60000000000 := by
+    rw [← hWDq]; ring
+  have ky : ((prepLat lat).val * W + 90 * W) * D = (prepLat lat).val * 60000000000 + 90 * 60000000000 := by
+    rw [← hWDq]; ring
+  refine ⟨?_, ?_, ?_, ?_⟩
+  · rw [div_le_iff₀ hWq]
+    have : (((X / D : ℤ) : ℚ)) * D ≤ ((prepLon lon).val * W + 180 * W) * D := by rw [kx]; linarith
+    have := le_of_mul_le_mul_right this hDq
+    linarith
+  · rw [lt_div_iff₀ hWq]
+    have : ((prepLon lon).val * W + 180 * W) * D < ((((X / D : ℤ) : ℚ)) + 1) * D := by rw [kx]; linarith
+    have := lt_of_mul_lt_mul_right this hDq.le
+    linarith
+  · rw [div_le_iff₀ hWq]
+    have : (((Y / D : ℤ) : ℚ)) * D ≤ ((prepLat lat).val * W + 90 * W) * D := by rw [ky]; linarith
+    have := le_of_mul_le_mul_right this hDq
+    linarith
+  · rw [lt_div_iff₀ hWq]
+    have : ((prepLat lat).val * W + 90 * W) * D < ((((Y / D : ℤ) : ℚ)) + 1) * D := by rw [ky]; linarith
+    have := lt_of_mul_lt_mul_right this hDq.le
+    linarith
+
+section GeohashCell
+open F64
+
+theorem shift_cell (n : ℤ) (h1 : -(2:ℤ) ^ 45 ≤ n) (h2 : n < 2 ^ 45) :
+    ∃ U : ℕ, U = (n + 2 ^ 45).toNat ∧ (U:ℚ) = (n:ℚ) + (2:ℚ) ^ 45 ∧ U < 2 ^ 46 ∧
+      ∀ j : ℕ, (((U >>> j : ℕ) : ℚ) * (2:ℚ) ^ j ≤ (U:ℚ)) ∧ ((U:ℚ) + 1 ≤ (((U >>> j : ℕ) : ℚ) + 1) * (2:ℚ) ^ j) := by
+  refine ⟨(n + 2 ^ 45).toNat, rfl, ?_, by omega, fun j => ?_⟩
+  · have a3 : (((n + 2 ^ 45).toNat : ℕ) : ℤ) = n + 2 ^ 45 := by omega
+    have := congrArg (Int.cast : ℤ → ℚ) a3
+    simp only [Int.cast_add, Int.cast_pow, Int.cast_ofNat, Int.cast_natCast] at this
+    exact this
+  · generalize (n + 2 ^ 45).toNat = U
+    rw [Nat.shiftRight_eq_div_pow]
+    have hp : 0 < 2 ^ j := Nat.pos_of_ne_zero (by simp)
+    have c1 : U / 2 ^ j * 2 ^ j ≤ U := Nat.div_mul_le_self _ _
+    have c2 : U + 1 ≤ (U / 2 ^ j + 1) * 2 ^ j := by
+      have := Nat.lt_div_mul_add (a := U) hp
+      rw [Nat.add_mul, Nat.one_mul]; omega
+    constructor
+    · exact_mod_cast c1
+    · exact_mod_cast c2
+
+/-- **the decoded cell of the exact hash contains the point** (Geohash, every accepted finite position, every length):
+with `z = lon'·2^45/180` (the longitude in units of `loneps`, `lon' = prepLon lon`) the decoded column `d.ulon` of
+`2^(46−k)` units, `k = ⌈5·len/2⌉`, satisfies `d.ulon·2^(46−k) − 2^45 ≤ z < (d.ulon+1)·2^(46−k) − 2^45`; the same in
+latitude with `k = ⌊5·len/2⌋` away from the pole, and the pole is in the last row. -/
+theorem geohash_cell_contains (lat lon : F64) (h1 : F64.gt (F64.abs lat) MathF.qd = false)
+    (h2 : (lat.isNaN || lon.isNaN) = false) (hf : lon.isFinite = true) (len : Nat) (hlen : len ≤ 18) :
+    ∃ ulon ulat : ℕ, Geohash.scaleExact lat lon = some (ulon, ulat) ∧
+      ∃ d : Geohash.Dec, Geohash.decodeInt (toBytes (Geohash.encodeInt ulon ulat len)) = .ok d ∧ d.len = len ∧
+        ((d.ulon : ℚ) * (2:ℚ) ^ (46 - (5 * len + 1) / 2) - (2:ℚ) ^ 45 ≤ (prepLon lon).val * (2:ℚ) ^ (45:ℕ) / 180 ∧
+         (prepLon lon).val * (2:ℚ) ^ (45:ℕ) / 180 < ((d.ulon : ℚ) + 1) * (2:ℚ) ^ (46 - (5 * len + 1) / 2) - (2:ℚ) ^ 45) ∧
+        (lat.val ≠ 90 →
+         (d.ulat : ℚ) * (2:ℚ) ^ (46 - 5 * len / 2) - (2:ℚ) ^ 45 ≤ lat.val * (2:ℚ) ^ (45:ℕ) / 90 ∧
+         lat.val * (2:ℚ) ^ (45:ℕ) / 90 < ((d.ulat : ℚ) + 1) * (2:ℚ) ^ (46 - 5 * len / 2) - (2:ℚ) ^ 45) ∧
+        (lat.val = 90 → d.ulat = (2 ^ 46 - 1) >>> (46 - 5 * len / 2)) := by
+  obtain ⟨nx, ny, cx, cy, hE, _, ⟨x1, x2⟩, ⟨y1, y2⟩, ⟨⟨zx1, zx2⟩, _⟩, hpole, hnp⟩ :=
+    geohash_scale_contains lat lon h1 h2 hf
+  obtain ⟨U, hU, uq, ult, ucell⟩ := shift_cell nx x1 x2
+  obtain ⟨V, hV, vq, vlt, vcell⟩ := shift_cell ny y1 y2
+  rw [← hU, ← hV] at hE
+  refine ⟨U, V, hE, _, geohash_decode_encode46 U V len hlen ult vlt, rfl, ?_, ?_, ?_⟩
+  · obtain ⟨c1, c2⟩ := ucell (46 - (5 * len + 1) / 2)
+    constructor
+    · show ((U >>> (46 - (5 * len + 1) / 2) : ℕ) : ℚ) * _ - _ ≤ _
+      linarith
+    · show _ < (((U >>> (46 - (5 * len + 1) / 2) : ℕ) : ℚ) + 1) * _ - _
+      linarith
+  · intro hne
+    obtain ⟨⟨zy1, zy2⟩, _⟩ := hnp hne
+    obtain ⟨c1, c2⟩ := vcell (46 - 5 * len / 2)
+    constructor
+    · show ((V >>> (46 - 5 * len / 2) : ℕ) : ℚ) * _ - _ ≤ _
+      linarith
+    · show _ < (((V >>> (46 - 5 * len / 2) : ℕ) : ℚ) + 1) * _ - _
+      linarith
+  · intro hv
+    obtain ⟨e1, _⟩ := hpole hv
+    show V >>> (46 - 5 * len / 2) = _
+    have : V = 2 ^ 46 - 1 := by rw [hV, e1]; rfl
+    rw [this]
+
+end GeohashCell
 
 /-! ### non-vacuity: concrete codes -/
 example : String.ofList (GARS.encodeInt (4320 / 2 + 7) (2160 / 2 + 5) 2) = "362HN12" := by decide
